@@ -12,1238 +12,2676 @@ Definition show_fres (r : fres) : string :=
   end.
 Definition check (rs : list rune) : string := digest (show_fres (format_res rs)).
 Definition full (rs : list rune) : string := show_fres (format_res rs).
-Eval vm_compute in ("<<<M2085>>>" ++ check (runes_of_ascii "  packet 
-body{
-
-    chars  //x
-  `two words` 
-,
-match
-crc
-
-as
-
-metadata  { 65535  :
-
-    // c
-trueish""\" ++ [233]%N ++ runes_of_ascii """ 
-:
-charz ,
-""abc""  : MetaDataX
-
-[ ""packet"" ,  ""// no comment""
-,
-    0 ,	00
-    , ""// no comment""
-    ,
-""{,}"" 
-,
-00 
-]:
-	i64_
-// @lengthOf(
-  //	t
-
-,
-    """ ++ [233]%N ++ runes_of_ascii "t" ++ [233]%N ++ runes_of_ascii """
-	:
-	f32a	,
-
-    [ """ ++ [128512]%N ++ runes_of_ascii """
-
-    ,	""it's""	]:Foo	} 
-,	@rightPad
-
-    (' '
-
-/// triple
-	  )repeat
-char[ 
-1
-	]
-body
-    `it's`
-
-,
-	@tag(  007
-) @calculatedFrom(
-
-    """ ++ [233]%N ++ runes_of_ascii "t" ++ [233]%N ++ runes_of_ascii """)
-
-// @lengthOf(
-		//
-
-	@calculatedFrom(
-    ""a\""b""  // trailing space 
-
-	)
-repeat
-
-i64_ 
-{
-    roots/// triple
-		{
-i16 // packet A { u8 x, }
-
-Header  `two words`, repeatCount
-    `{ , }` ,
-
-    f64  x@calculatedFrom( ""a	b""
-
-    ) 
-    // a // b
-	,  repeatCount@calculatedFrom( // " ++ [27880; 37322]%N ++ runes_of_ascii "
-
-	"""")
-,
-	}
-,repeat	u8	BodyLength
-	`crlf
-line` , 
-    // `tick` ""quote"" 'q'
-	char
-As@lengthOf(
-
-Foo ),
-
+Eval vm_compute in ("<<<M3501>>>" ++ check (runes_of_ascii "options {
+    StringPrefixLenType = u8;
+    ArrayPrefixLenType = u64;
+    FixedStringPadFromLeft = true;
+    JavaPackage = ""co\
+m.example.msg"";
+    GoPackage = ""ms\
+g"";
+    GoModule = ""example.com/msg"";
 }
-	,char[]roots
-
-    `line1
-line2` , 	 //
-  int
-a1 ,string_
-
-    { char[]
-
-Logon 
-`line1
-line2` ,
-repeat
-float32
-    trueish,  }
-
-, @leftPad 
-(
-'0' 
-)
-
-    repeat  metadata {
-
-    rootA
-	@lengthOf( 	 // trailing space 
-	falsey ) ``	, 
-
-    // " ++ [128512]%N ++ runes_of_ascii " emoji
-
-// packet A { u8 x, }
-  }
-,
-
-    }
-
-    packet
-	float 
-{
-
-u16 
-      // trailing space 
-  	// trailing space 
-
-Logon	// a // b
-    `tab	here`// @lengthOf(
-
-	,
-    // @lengthOf(
-
-	// c
-
-u128
-
-    {
-    zchar[ 255 
-        // packet A { u8 x, }
-  //
-    ] 
-charz
-	`doc`
-
-,
-} , @tag(
-0	)	repeat	Foo
-{  i32
-	body @calculatedFrom(
-
-""`tick`"")`" ++ [233]%N ++ runes_of_ascii "`
-,
-	} /// triple
-  	, 
-char[] 
-o	@calculatedFrom(
-""1"" )  `line1
-line2`
-
-, @lengthOf(  
-      // a // b
-
-//x
-	zchar
-
-    )
-i16 BodyLength @lengthOf( 
-
-    // " ++ [27880; 37322]%N ++ runes_of_ascii "
-
-BodyLength
-)
-    ,
-@lengthOf(
-	T )
-
-@rightPad (' '
-	)
-    @lengthOf( T
-	)repeat
-    u64
-_x// " ++ [27880; 37322]%N ++ runes_of_ascii "
-  ,
-match MetaDataX	as// trailing space 
-  options1 // trailing space 
-	{//x
-  0123456789	:  options1
-
-,
-    } ,
-repeat 
-u8  charz
-    ,	repeat 
-i8i8{ // c
-	a1 ,
-	len
-
-    {repeat	string  o, 
-    // a // b
-  } ,
-match
-    zchar as 
-Logon 
-{
-    """" :
-
-    matchKey  """ ++ [128512]%N ++ runes_of_ascii """
-	: u
-
-007  :  repeatCount,
+MetaData Meta {
+    u32 SeqNum `sequence number`,
+    char[8] Symbol `symbol`,
+    zchar[5] ZSym `z symbol`,
+    string Note,
+    Symbol AltSymbol `alias of symbol`,
+    f64 Price,
 }
-    ,  // c
-	}	,
-
+packet Inner {
+    u8 a,
+    i16 b,
+    string c,
+}
+packet Inner2 {
+    u8 a2,
+    char[3] c2,
+}
+packet Logon {
+    u8 x,
+    string user,
+    repeat u16 codes,
+}
+packet Logout {
+    u16 reason,
+}
+packet Empty {
+}
+root packet Msg {
+    u8 su8,
+    uint8 luint8,
+    u16 su16,
+    uint16 luint16,
+    u32 su32,
+    uint32 luint32,
+    u64 su64,
+    uint64 luint64,
+    i8 si8,
+    int8 lint8,
+    i16 si16,
+    int16 lint16,
+    i32 si32,
+    int32 lint32,
+    i64 si64,
+    int64 lint64,
+    f32 sf32,
+    float32 lfloat32,
+    f64 sf64,
+    float64 lfloat64,
+    char[6] fsplain,
+    @leftPad('0') char[4] fs0,
+    @rightPad('0') char[5] fs1,
+    @leftPad(' ') char[6] fs2,
+    @rightPad(' ') char[7] fs3,
+    @leftPad('\x00') char[8] fs4,
+    @rightPad('\x00') char[9] fs5,
+    @leftPad() char[10] fs6,
+    @rightPad() char[11] fs7,
+    zchar[7] fz,
+    @leftPad('0') zchar[3] fzl0,
+    string s1 `doc`,
+    char[] s2,
+    Inner,
+    Sub {
+        u8 q,
+        string w,
+        Deep {
+            u16 z,
+            repeat i32 zs,
+        },
+    },
+    repeat u8 ru8,
+    repeat u16 ru16,
+    repeat u32 ru32,
+    repeat u64 ru64,
+    repeat i8 ri8,
+    repeat i16 ri16,
+    repeat i32 ri32,
+    repeat i64 ri64,
+    repeat f32 rf32,
+    repeat f64 rf64,
+    repeat string rstr,
+    repeat char[] rstr2,
+    repeat char[3] rfs,
+    repeat zchar[3] rfz,
+    repeat Inner2,
+    repeat Grp {
+        u8 k,
+        char[2] v,
+    },
+    SeqNum,
+    SeqNum seq2,
+    repeat SeqNum seqs,
+    Symbol,
+    AltSymbol alt,
+    ZSym,
+    Note,
+    repeat Symbol syms,
+    Price px,
+    u16 MsgType,
+    u32 BodyLen @lengthOf(Body),
+    match MsgType as Body {
+        1 : Logon,
+        [2, 3] : Logout,
+        7 : Logon,
+        9 : Empty,
+    },
+    u32 Checksum @calculatedFrom(""CRC32""),
 }
 ")).
-Eval vm_compute in ("<<<M1827>>>" ++ check (runes_of_ascii "packet asx {
-    Logon {
-        body @calculatedFrom(""it's""),// @lengthOf(
-        char[3] MetaDataX,
-        string leftPad `crlf
-        line`,
-        u128 @calculatedFrom(""packet""),
-    },
-}//x
-
-packet x_y_z {
-    len {
-        match leftPad as rootA {
-            [
-                007, ""a\\"", 0123456789, ""\" ++ [233]%N ++ runes_of_ascii """, ""`tick`"",
-                ""{,}""
-            ] : falsey,
-            4294967296 : matchKey,
-            // packet A { u8 x, }
-        },
-        int32 Z9_,
-        a1 {
-            x_y_z,
-            repeat _x `doc`,
-            char[] falsey @lengthOf(u128) `doc`,
-        },
-        match Foo as stringy {
-            7 : asx,
-            ""x y"" : calculatedFrom,
-        },
-    },
-    @lengthOf(i64_)
-    @rightPad('\x00')
-    @tag(42)
-    char[] repeatCount,
-    match Z9_ as int {
-        [""a	b"", ""abc"", 255, 7] : asx,
-        ""1"" : chars,
-        [""a	b"", 00, 4294967296] : leftPad,
-        [
-            65535, 0, ""abc"", ""it's"", 007,
-            ""x y"", 255, 3
-        ] : leftPad,
-        [4294967296] : u,
-        // " ++ [128512]%N ++ runes_of_ascii " emoji
-        // " ++ [128512]%N ++ runes_of_ascii " emoji
-        0123456789 : a1,
-    },
-    x_y_z u8x,
-    asx {
-        repeat Header float `crlf
-        line`,
-        rootA charz `a\`,
-    },
-    @calculatedFrom(""CRC32"")
-    string string_,
-    @tag(65535)
-    @rightPad('\x00')
-    u8x a1 `{ , }`,
+Eval vm_compute in ("<<<M874>>>" ++ check (runes_of_ascii "
+MetaData
+As { int16 lengthOf `tab	here`  ,
+    zchar[
+// @lengthOf(
+// @lengthOf(
+42
+    ]	repeatCount ,zchar[ 10 ]	crc `line1
+line2`
+, int64 stringy `it's` ,
+char[ 7  ]
+string_
+`crlf
+line` , }
+root
+    packet Pad	{repeat BodyLength {
+repeat metadata // c
+{ char[1 ]body ,
+repeat string roots , options1 Z9_ ,	repeat  string Header
+,
+},
+char[
+    4294967296
+]
+    lengthOf `line1
+line2`
+,u32
+uint8x
+    , // " ++ [27880; 37322]%N ++ runes_of_ascii "
 }
-
-options {
-    // c
-    float = 007
-}
-
-root packet metadata {
-}")).
-Eval vm_compute in ("<<<M1717>>>" ++ check (runes_of_ascii "packet u {
-    Header {
-        float64 Foo @lengthOf(Pad) `{ , }`,
-        leftPad @calculatedFrom(""a	b""),
-        msg_type {
-            Z9_ @lengthOf(u8x),
-            falsey,
-            len @lengthOf(float) `it's`,
-            repeat int64 options1 `a\`,
-        },// trailing space 
-    },
-    //	t
-    // " ++ [128512]%N ++ runes_of_ascii " emoji
-    falsey u8x,
-    zchar[1] x ``,
-    @lengthOf(uint8x)
-    crc @lengthOf(matchKey),
-    repeat f32 string_,
-    packetx,
-    // " ++ [27880; 37322]%N ++ runes_of_ascii "
-    u8x {
-        f64 Header,
-        repeat uint8 uint8x,
-        x_y_z {
-            match string_ as a1 {
-                [255] : f32a,
-                [
-                    ""packet"", ""1"", 00, """ ++ [128512]%N ++ runes_of_ascii """, 4294967296,
-                    4294967296
-                ] : Logon,
-            },
-            pack @lengthOf(options1),
-            zchar[1] crc ``,
-        },
-    },
-    rootA zchar,
-}
-
-options {
-    uint8x = 4294967296
-    // " ++ [27880; 37322]%N ++ runes_of_ascii "
-    // @lengthOf(
-    tag = float32;
-    o = true;// trailing space 
-    rootA = ""packet"";
-}//x
-
-packet float {
-}// " ++ [27880; 37322]%N ++ runes_of_ascii "
-
-options {
-    // " ++ [27880; 37322]%N ++ runes_of_ascii "
-    msg_type = i16;
-    trueish = zchar[1];
-    Logon = ""abc""
-    rootA = i16;
-}
-
-MetaData rootA {
-}")).
-Eval vm_compute in ("<<<M202>>>" ++ check (runes_of_ascii "root packet body{
-@tag(
-4294967296
-    )
-As @calculatedFrom(""" ++ [128512]%N ++ runes_of_ascii """ )
-    `a\` , /// triple
-} root packet
-    uint8x
-{ MetaDataX{ repeat
-matchKey lengthOf , repeat u32 uint8x
-// packet A { u8 x, }
-// a // b
-`doc`
-    /// triple
+, @rightPad (
+    '\x00') x_y_z
+    { f32a {
+char[
+    1]	body
+`a\` // trailing space 
+, }
     ,
-} ,  } options { int // a // b
-=
-    ""abc"" } packet
-    // trailing space 
-    u8x {
-} root
-packet // " ++ [128512]%N ++ runes_of_ascii " emoji
-falsey {repeat float32	u , repeat	char[]
-// " ++ [128512]%N ++ runes_of_ascii " emoji
 // packet A { u8 x, }
-msg_type
-    `
-` , @leftPad ( ' ')
-    @tag(255
-)match Header as msg_type
-    { 3 :uint8x
-    ,
-    255 :
-x , // trailing space 
-7 // " ++ [27880; 37322]%N ++ runes_of_ascii "
-: leftPad
-// c
+//
+repeat packetx`it's`
+,	char[ 42 ] falsey ,
+}  , char[]packetx `" ++ [28040; 24687; 31867; 22411]%N ++ runes_of_ascii "`//x
+, @leftPad('\x00'
+    ) metadata// packet A { u8 x, }
+@lengthOf(  As ) `say ""hi""` ,  @tag(42 )//
+x
+// @lengthOf(
 // `tick` ""quote"" 'q'
-""" ++ [28040; 24687]%N ++ runes_of_ascii """
-// packet A { u8 x, }
-// c
-: Packet ,[ 4294967296
-    ,""1"" ] :
-    T , } ,
-    //	t
-    Logon @calculatedFrom( ""x y"")  `it's`
-, string charz @calculatedFrom(
+@calculatedFrom( ""x y""//x
+)
+,  @lengthOf( float )
+repeat //x
+Foo { asx
+    // 50% %s
+    { repeat // c
+char[]
+crc
+    `crlf
+line`
 // " ++ [128512]%N ++ runes_of_ascii " emoji
 //	t
-""abc""
-) ,
-string options1	,
-/// triple
-/// triple
-@lengthOf(
-//
-//x
-As
-    ) repeat zchar[ // `tick` ""quote"" 'q'
-7 ]zchar , @lengthOf(
-    crc)x_y_z
-    @calculatedFrom(
-""" ++ [28040; 24687]%N ++ runes_of_ascii """ ) ,
-}
-")).
-Eval vm_compute in ("<<<M1764>>>" ++ check (runes_of_ascii "
-packet Pad
-
-    { @lengthOf( stringy ) 
-MetaDataX @calculatedFrom(""" ++ [28040; 24687]%N ++ runes_of_ascii """ )`{ , }` , 
-	    //x
-/// triple
-  char[
-0123456789	] leftPad
-	@lengthOf( float )
-
-    ,  asx
-leftPad	`u8 x,`,
-	@calculatedFrom(""\" ++ [233]%N ++ runes_of_ascii """
-)
-
-repeat
-    rootA
-    matchKey `" ++ [28040; 24687; 31867; 22411]%N ++ runes_of_ascii "`
-
-, @lengthOf(
-
-stringy )  /// triple
-uint8x
-msg_type`u8 x,`	,  // c
-	char[ 3 ]
-    stringy  `tab	here`  ,
-
-}
-MetaData 
-metadata
-    { string_
-
-    zchar
-,float32
-	u128 ,
-
-    char[]
-	//	t
-    	u128 	 //x
-  ,
-}
-
-    options
-// trailing space 
-{
-    zchar =""" ++ [28040; 24687]%N ++ runes_of_ascii """
-;
-msg_type =007
-; repeatCount
-    ='\x00' ;
-
-    }
-
-    packet
-_x  {
-	}options
-
-    {
-    asx =true
-	;
-lengthOf	= '0'
-	i8i8
-= '0'
-
-    crc = 
-""abc"" 
-      /// triple
-    	;
-Packet
-// " ++ [128512]%N ++ runes_of_ascii " emoji
-  // trailing space 
-  	=
-' ' } 	 // a // b")).
-Eval vm_compute in ("<<<M1697>>>" ++ check (runes_of_ascii "
-root packet
-
-    Packet	{
-char[0123456789
-
-    ]pack @lengthOf(  As  )
-
-    `{ , }`
-	,
-	repeat
-
+, zchar[ 4294967296 // @lengthOf(
+]uint8x , }, Z9_ @lengthOf(
+i8i8 ) , uint16 o
+@calculatedFrom(""{,}"" ) `" ++ [233]%N ++ runes_of_ascii "` , match
+    roots as f32a
     // `tick` ""quote"" 'q'
-  	string 
-rootA,
-	match
-    repeatCount as
-pack	/// triple
-  { ""a\""b""	: uint8x	// packet A { u8 x, }
-		[
-""x y""	, 
-""it's"" 
-    // " ++ [128512]%N ++ runes_of_ascii " emoji
-	  ]
-:  chars 
-""\" ++ [233]%N ++ runes_of_ascii """ 
-:  //	t
-    crc
-
-    0123456789  : Packet
-,
-
-[ ""1""
-    ]
-
-: A , 
-    // @lengthOf(
-
-  }, 	 // `tick` ""quote"" 'q'
-	  }	options	/// triple
-{}
-    packet 
-pack // trailing space 
-
-  {i8 	 //x
-
-	MetaDataX , 
-string
-float 
-`" ++ [28040; 24687; 31867; 22411]%N ++ runes_of_ascii "`
-
+    { 7 : u128 ,
+[ ""packet"" , 10 ]
+: Packet ,}
     ,
-
-@lengthOf(  trueish ) @calculatedFrom(
-""`tick`"" )	f64
-lengthOf  ,
-	repeat  pack
-
-packetx  
-      // trailing space 
-	  // packet A { u8 x, }
-  ,
-}
-")).
-Eval vm_compute in ("<<<M209>>>" ++ check (runes_of_ascii "packet _x
-    {repeat
-u8x {
-    repeat pack
-    body,
-    } ,
-@calculatedFrom( ""x y"" ) A { match msg_type as f32a {4294967296
-    : crc 1
-// c
+    }, @leftPad ( '\x00'  )repeat o {
+    float
+    {pack ,i16
+crc @calculatedFrom(
+""abc"" ) ,	} , repeat
+rootA	{
+    repeat string_ { repeatCount f32a `doc` ,
+    u8x rootA , packetx `doc` , }, } , repeat
 /// triple
-: uint8x , // a // b
-[ 255, 0
-    ] : // " ++ [27880; 37322]%N ++ runes_of_ascii "
-pack , [7 ,
-// `tick` ""quote"" 'q'
-// packet A { u8 x, }
-00 ] :	roots , [ 255
-    ]
-:	rootA
-    , } ,
-    char packetx
-@calculatedFrom( ""{,}""
-    // trailing space 
-    )
-, } ,
-    match
-    BodyLength //
-as u8x {""a	b"" : u,
-    00 // @lengthOf(
-: msg_type,// " ++ [27880; 37322]%N ++ runes_of_ascii "
-}, match metadata as As{[ 0123456789, 3 ,// a // b
-0
-, ""it's""
-, ""it's"" , ""1"" ] :
-int
-,
-    ""packet"": leftPad}, char[] Pad `say ""hi""` , }
-
-")).
-Eval vm_compute in ("<<<M1665>>>" ++ check (runes_of_ascii "MetaData metadata {
+//x
+zchar[7 ] options1 , match	x
+    as metadata {
+255 : chars , ""a\\"": packetx , [ ""it's""
+]: body,// c
+0123456789 : // @lengthOf(
+charz [""it's""  , 10 ,""""	,
+255
+    , 65535 ,00,7 ,""a\""b""  ]: msg_type ,
+    }
     // `tick` ""quote"" 'q'
-    msg_type Pad,
-    int8 calculatedFrom,
+    ,}
+    , repeat f32a
+crc `100% of %d` ,
+i16
+leftPad
+    @calculatedFrom(
+// packet A { u8 x, }
+// " ++ [27880; 37322]%N ++ runes_of_ascii "
+""a\\""
+)
+`" ++ [233]%N ++ runes_of_ascii "`
+,
+    } packet rootA {chars ,
+    // " ++ [27880; 37322]%N ++ runes_of_ascii "
+    u64
+falsey @lengthOf( leftPad
+) `
+`	, string MetaDataX	@calculatedFrom( ""it's""// @lengthOf(
+) `it's` ,  }
+")).
+Eval vm_compute in ("<<<M4385>>>" ++ check (runes_of_ascii "packet falsey {
+    u16 float,
+    string body @lengthOf(stringy) `u8 x,`,// " ++ [27880; 37322]%N ++ runes_of_ascii "
+    @calculatedFrom(""a\""b"")
+    MetaDataX @calculatedFrom(""CRC32"") `it's`,
+    @rightPad('0')
+    @leftPad('0')
+    @lengthOf(Foo)
+    i8i8 calculatedFrom,//
+}
+
+//	t
+options {
+    x_y_z = '0';
+}
+
+packet string_ {
+    @rightPad('0')
+    repeat i8 leftPad,
+    leftPad roots,
+    zchar[7] charz @calculatedFrom(""1""),
+    match Header as leftPad {
+        10 : falsey,
+        4294967296 : stringy,
+        3 : o,
+        [
+            7, 4294967296, 007, ""`tick`"", 0123456789,
+            0123456789, ""1"", ""a\""b""
+        ] : rootA,
+        ""a\""b"" : MetaDataX,
+    },
+    int16 u8x @calculatedFrom(""" ++ [233]%N ++ runes_of_ascii "t" ++ [233]%N ++ runes_of_ascii """),
+    char leftPad,
+    zchar[0123456789] Packet @calculatedFrom(""\" ++ [233]%N ++ runes_of_ascii """),
+    f32a x,// a // b
+    string i8i8 @lengthOf(len),
 }
 
 MetaData msg_type {
-    // packet A { u8 x, }
+    len trueish,
+    i16 msg_type `it's`,
+    char[] falsey ``,
+    // trailing space 
+    string tag,
 }
 
-packet len {
-    _x,
+packet trueish {
+    int32 Packet @lengthOf(chars) `doc`,
+    i8i8 {
+        repeat packetx uint8x,
+        repeat uint64 Header `say ""hi""`,
+    },
+    @calculatedFrom(""packet"")
+    tag,
+    @lengthOf(rootA)
+    @lengthOf(trueish)
+    match trueish as options1 {
+        42 : matchKey,
+    },
+    i64 u8x,
+    @rightPad(' ')
+    char[3] MetaDataX @calculatedFrom(""" ++ [28040; 24687]%N ++ runes_of_ascii """),
+    @lengthOf(len)
+    @tag(10)
+    char[] As @lengthOf(Header) ``,
+    @tag(42)
+    Logon {
+        repeat u32 a1,
+        stringy @calculatedFrom(""" ++ [233]%N ++ runes_of_ascii "t" ++ [233]%N ++ runes_of_ascii """),
+        repeat len,
+    },
+    u128 u128,
+}")).
+Eval vm_compute in ("<<<M1396>>>" ++ check (runes_of_ascii "// " ++ [128512]%N ++ runes_of_ascii " emoji
+root packet	asx { @lengthOf( a1 ) uint32 string_
+    @lengthOf( u
+) `// not a comment` ,  @lengthOf(
+Header )  @calculatedFrom(""CRC32""// " ++ [27880; 37322]%N ++ runes_of_ascii "
+) //
+@lengthOf( u8x) zchar[1 ] repeatCount
+, lengthOf len, @lengthOf(MetaDataX  )  @calculatedFrom(
+    ""// no comment"")
+match
+    u as pack // `tick` ""quote"" 'q'
+{ 0 //x
+:
+    T , // " ++ [27880; 37322]%N ++ runes_of_ascii "
+0 : falsey [
+    """ ++ [128512]%N ++ runes_of_ascii """
+    , 10
+    ]: // " ++ [27880; 37322]%N ++ runes_of_ascii "
+u8x """" :roots
+,
+    255	: lengthOf , """"
+: roots} ,u32
+    // trailing space 
+    x @calculatedFrom( ""a\\""
+    ),
+    @lengthOf( rootA ) @lengthOf( charz) f32 MetaDataX
+    //x
+    , @calculatedFrom( """ ++ [128512]%N ++ runes_of_ascii """ ) // trailing space 
+int64
+string_ , o @lengthOf( crc ) ,
+    } root
+packet i64_  {
+body x `doc` ,
+}	packet	Packet {  } packet  float{ @leftPad ()match falsey as matchKey{// packet A { u8 x, }
+""a\\"" : options1 ,// a // b
+[	""\" ++ [233]%N ++ runes_of_ascii """ ,""packet"", ""it's"" ,""1"", ""abc"" ,10 , ""a	b"" ]
+:
+    u
+,[ 4294967296
+    ]:  calculatedFrom , 10 : Pad
+, ""abc""  : a1,
+42 : Foo , }
+,@calculatedFrom(// `tick` ""quote"" 'q'
+""a	b"") repeat	leftPad
+    `{ , }` ,repeat //x
+Pad{ x x ,
+    zchar[ 007
+] charz , uint32 len `two words`
+    , _x@lengthOf( zchar),} , repeat _x { u128  matchKey
+    , } , char[ // trailing space 
+10]  charz@lengthOf( pack ) ,
+@calculatedFrom( ""`tick`""
+) string_
+, calculatedFrom @calculatedFrom(
+"""" /// triple
+)
+    , }
+")).
+Eval vm_compute in ("<<<M4059>>>" ++ check (runes_of_ascii "
+options { chars=
+'0';	} root  packet 
+x
+	{ match
+Logon
+    as  calculatedFrom
+{ 
+[ 
+""`tick`"" 	 // packet A { u8 x, }
+
+	, 0123456789 ]
+	:	Packet}
+,
+    // packet A { u8 x, }
+char[
+0123456789	// " ++ [128512]%N ++ runes_of_ascii " emoji
+
+]u8x
+
+    ,  @tag(	00) string
+metadata `say ""hi""` 
+,
+    i64
+
+    A `" ++ [28040; 24687; 31867; 22411]%N ++ runes_of_ascii "`
+
+, @lengthOf(	/// triple
+  calculatedFrom) float@calculatedFrom(  ""{,}"" ) // " ++ [27880; 37322]%N ++ runes_of_ascii "
+
+,  }
+	packet
+	crc
+{ 
+@tag(
+	0123456789
+	)uint32
+    tag`line1
+line2` ,
+    repeat
+
+    zchar[
+    4294967296 ] BodyLength  `" ++ [28040; 24687; 31867; 22411]%N ++ runes_of_ascii "`
+	,repeat
+	calculatedFrom 
+`two words`
+, uint32 
+repeatCount	,
+leftPad BodyLength `" ++ [233]%N ++ runes_of_ascii "` , 
+options1
+	Logon`` ,
+
+@leftPad
+(' '
+)
+    repeat	metadata
+    string_// c
+
+  , char[ 0123456789 
+]
+
+    trueish @calculatedFrom(
+
+""a\""b"")
+	`say ""hi""`,
+
+@calculatedFrom(
+""\n""
+    )  pack	,	}	packet
+	leftPad{@tag( 
+7
+
+) options1 
+{ repeat
+	pack
+	,  },
+	u  `` ,
+	packetx
+@lengthOf(MetaDataX ) 
+, asx
+	// trailing space 
+  {
+    repeat
+repeatCount Z9_ ,repeat  zchar[4294967296 ]Pad	, }
+
+,
+@tag( 
+255 )  @tag( 255
+)
+
+    char[
+    0123456789
+	]
+u8x  // packet A { u8 x, }
+
+,//
+	@calculatedFrom(
+""CRC32""
+    )char[  3
+	] Pad `tab	here`
+    ,
+
+    MetaDataX  ,@leftPad(
+	' '
+	) 
+char[]	Foo@calculatedFrom(""" ++ [28040; 24687]%N ++ runes_of_ascii """
+
+)
+	,
+}
+")).
+Eval vm_compute in ("<<<M4036>>>" ++ check (runes_of_ascii "
+options
+	{
+    options1  =	// " ++ [27880; 37322]%N ++ runes_of_ascii "
+
+true 	 // @lengthOf(
+	} 
+    // 50% %s
+	// c
+    packet
+
+Header 
+{ 
+    // c
+
+@calculatedFrom(
+
+// packet A { u8 x, }
+//
+    """ ++ [233]%N ++ runes_of_ascii "t" ++ [233]%N ++ runes_of_ascii """
+
+    ) u16
+
+    Foo ,}root
+	packet
+
+pack
+{	@tag( 255
+)
+
+a1{	// packet A { u8 x, }
+  char[]
+	x_y_z ,	}  , @lengthOf(
+
+falsey
+)	uint64
+
+    tag  ,
+char[]
+    // `tick` ""quote"" 'q'
+  Header
+	@calculatedFrom(  ""// no comment""
+	),	@leftPad
+	(
+
+    '0'
+)
+@rightPad('\x00'
+) tag
+    @calculatedFrom(
+    // " ++ [128512]%N ++ runes_of_ascii " emoji
+		// " ++ [27880; 37322]%N ++ runes_of_ascii "
+	""" ++ [28040; 24687]%N ++ runes_of_ascii """
+
+    // @lengthOf(
+
+	// c
+)
+	,
+uint16
+    x
+    @calculatedFrom(
+
+    ""`tick`""	)
+`tab	here`	, repeat  i64 
+string_	`u8 x,`, _x
+@calculatedFrom( ""packet""  ) `// not a comment`
+	,
+repeat  // @lengthOf(
+  	x
+{ 	 // `tick` ""quote"" 'q'
+  	i32 o
+`
+` 
+    // " ++ [27880; 37322]%N ++ runes_of_ascii "
+    ,
+} ,
+
+    match	uint8x  // `tick` ""quote"" 'q'
+  as 
+falsey	{  ""\" ++ [233]%N ++ runes_of_ascii """ : 
+falsey
+, 
+4294967296	:  roots	""" ++ [28040; 24687]%N ++ runes_of_ascii """ :
+float
+	,// " ++ [27880; 37322]%N ++ runes_of_ascii "
+
+  [
+1
+    , 	 /// triple
+
+  1  ,
+"""" ,
+	// trailing space 
+
+  // @lengthOf(
+	""CRC32""  , 00
+    ,""a	b"" ,""a	b""
+
+    ] 
+:  calculatedFrom }
+	,
+    @calculatedFrom(""{,}""
+) //x
+
+	zchar[ 00  ]Pad, }
+	packet 
+  /// triple
+  	calculatedFrom {}
+")).
+Eval vm_compute in ("<<<M4301>>>" ++ check (runes_of_ascii "  root packet msg_type {
+    } packet
+	calculatedFrom
+
+    {
+// " ++ [128512]%N ++ runes_of_ascii " emoji
+
+  // " ++ [27880; 37322]%N ++ runes_of_ascii "
+repeat
+int32
+    Pad
+
+    , 
+	//
+
+}MetaData
+    // c
+	//
+	Header
+	{ 
+char[ 65535 
+]
+As ,
+char[65535 // 50% %s
+  ] A `tab	here`
+, 
+//
+	char[
+0 ]  metadata
+, string// @lengthOf(
+  	Pad,
+	} options { 
+crc 
+= 
+""a\""b"" ;	options1 =
+
+""// no comment""
+	;
+} packet Pad 
+{
+
+    repeat 	 /// triple
+u8
+
+    i64_
+
+, 
+@tag( 255
+    )
+
+i64  BodyLength
+, @tag( 0 )	repeat
+    BodyLength u
+`doc`
+,match	BodyLength	as
+	zchar 
+{	65535 :
+
+    metadata
+
+    , 00 :
+    MetaDataX
+
+    , 7
+: roots
+	"""" :  As
+
+    , 
+007 
+:
+	_x, [
+""" ++ [233]%N ++ runes_of_ascii "t" ++ [233]%N ++ runes_of_ascii """  ,
+
+    ""it's"" ,
+3 
+,  """ ++ [128512]%N ++ runes_of_ascii """
+	,3
+
+    ,
+	007]  :
+stringy ,
+} ,	repeat
+
+tag  float
+    ,  // packet A { u8 x, }
+
+@tag(  
+      // " ++ [27880; 37322]%N ++ runes_of_ascii "
+    	0) @rightPad	(
+'0' ) repeat	//x
+  Z9_	{ char[]  lengthOf
+	@calculatedFrom( ""\" ++ [233]%N ++ runes_of_ascii """
+)
+`100% of %d`,
+	repeat	zchar[ 255]i8i8
+    /// triple
+// `tick` ""quote"" 'q'
+  `u8 x,`  ,
+    repeat	i16
+
+    falsey	``  , char[
+
+    10  ]	stringy
+	, }  
+  // @lengthOf(
+    // trailing space 
+	,
+
+    u16
+	int 
+,	} ")).
+Eval vm_compute in ("<<<M3941>>>" ++ check (runes_of_ascii "
+
+  root packet
+	uint8x
+{  }packet
+
+uint8x
+
+    { } options// " ++ [128512]%N ++ runes_of_ascii " emoji
+
+{ Foo
+=
+' '
+u = 
+char[]
+
+} 
+  // c
+	// `tick` ""quote"" 'q'
+packet
+charz
+
+    {
+
+    char[]zchar `" ++ [233]%N ++ runes_of_ascii "`  ,
+@calculatedFrom(  ""x y"") string Logon 
+,
+	char[
+    0
+// 50% %s
+	//
+	]crc @lengthOf(
+
+    float
+	)
+`" ++ [233]%N ++ runes_of_ascii "` 	 // @lengthOf(
+
+  ,  // " ++ [27880; 37322]%N ++ runes_of_ascii "
+}
+root
+
+packet 
+Header {
+	i8// trailing space 
+  calculatedFrom  @lengthOf(  u128
+
+)
+
+,
+    @tag( 
+	    //x
+  	65535
+
+    )
+repeat 	 // `tick` ""quote"" 'q'
+zchar[ 
+4294967296
+	] tag
+	    //	t
+	  //x
+, @leftPad // " ++ [128512]%N ++ runes_of_ascii " emoji
+  (
+    '\x00'	// packet A { u8 x, }
+    	)
+	tag	{
+match
+	    // c
+	repeatCount  as charz{
+0123456789	:
+asx
+
+,  },
+
+f32
+    string_ /// triple
+	`
+`  //
+	, },uint32
+	matchKey
+
+,i32  // c
+leftPad 
+@calculatedFrom( ""1"" )
+	`it's`  ,
+
+    _x  { f32a @calculatedFrom(
+""`tick`"" ) ,
+
+    char
+metadata 
+`a\`	,
+repeat uint16 // a // b
+float
+`" ++ [233]%N ++ runes_of_ascii "`	// " ++ [128512]%N ++ runes_of_ascii " emoji
+,
+	}
+
+    ,
+	@lengthOf( 
+A
+)
+    zchar[  0123456789 ]
+
+Header @lengthOf(
+o
+	)
+    `
+` 
+,	}")).
+Eval vm_compute in ("<<<M99>>>" ++ check (runes_of_ascii "
+root packet
+    Logon {
+zchar[ 65535 ] uint8x ,@leftPad (
+)repeat f32 Packet , @leftPad
+( ' ' // c
+) match i8i8 as body { 65535 : MetaDataX/// triple
+, //x
+007 : // c
+Packet },
+@calculatedFrom( ""packet"") uint8x , Foo @lengthOf( // `tick` ""quote"" 'q'
+asx ) ,i64 int ,@leftPad ( ' ' ) repeat
+rootA{ int32 zchar, match  stringy
+    as MetaDataX
+    {
+[ """ ++ [28040; 24687]%N ++ runes_of_ascii """
+,
+10 ,42 , ""a\""b"" ,
+// trailing space 
+// trailing space 
+42 ,
+    7 ]
+    : msg_type ,[42 ] :stringy ,""a\\""
+:	Header
+255 : calculatedFrom , [ 007
+    ] : MetaDataX , ""a\""b"": stringy
+    , } ,char[ 007 ]
+    int @lengthOf( o ) `100% of %d`
+,
+    } ,char[ 00 ]leftPad @lengthOf(
+zchar ) ,
+char[]
+zchar
+    @calculatedFrom( ""1"" )
+    ,
+i64_
+{ Packet
+@lengthOf( Header )`two words`  ,// a // b
+match int as As {
+    ""\" ++ [233]%N ++ runes_of_ascii """
+    : As
+,
+}  ,metadata`// not a comment`, repeat f64 float ,
+    //	t
+    }
+, } options { //
+u = ""packet"" BodyLength = ""packet"" ;
+} root
+packet u8x {  } // packet A { u8 x, }")).
+Eval vm_compute in ("<<<M3774>>>" ++ check (runes_of_ascii "packet Packet {
+    @lengthOf(Foo)
+    match Logon as string_ {
+        [""`tick`"", ""// no comment"", 0, 3, 4294967296] : trueish,
+        """ ++ [233]%N ++ runes_of_ascii "t" ++ [233]%N ++ runes_of_ascii """ : packetx,
+        10 : float,
+        """" : x_y_z,
+        ""a	b"" : o,
+        10 : calculatedFrom,
+    },// 50% %s
+    metadata {
+        matchKey @lengthOf(Pad),
+        zchar[255] x ``,
+        x @lengthOf(metadata),
+    },
+    repeat msg_type rootA,
+    repeat Header,
+    char[7] len @lengthOf(packetx) `u8 x,`,
+    @lengthOf(falsey)
+    @lengthOf(options1)
+    repeat u16 Foo,
+    repeat int32 msg_type,
+    match lengthOf as Logon {
+        ""1"" : tag,
+    },
+}
+
+MetaData u128 {
+    uint8x MetaDataX,
+}
+
+packet falsey {
+    uint16 A @calculatedFrom(""// no comment""),
+    @leftPad(' ')
+    // `tick` ""quote"" 'q'
+    trueish,
+    @tag(7)
+    repeat string msg_type,
+    repeat string falsey `line1
+        line2`,
+}
+
+packet lengthOf {
+}// `tick` ""quote"" 'q'")).
+Eval vm_compute in ("<<<M4261>>>" ++ check (runes_of_ascii "  packet Z9_
+
+    {u32	pack`crlf
+line`
+
+    ,
+    /// triple
+	@lengthOf(len )u128	{	match x_y_z
+    as	Logon {
+7:	pack,1
+	:
+
+int
+4294967296  // " ++ [27880; 37322]%N ++ runes_of_ascii "
+:rootA
+
+    ,1
+    :f32a  ,  [
+
+"""" , // 50% %s
+	42
+,	""\n""
+
+    , 
+        // " ++ [128512]%N ++ runes_of_ascii " emoji
+    	// packet A { u8 x, }
+7,	// c
+	0  , 
+""// no comment"",
+
+4294967296	,
+	""// no comment""
+
+] : matchKey,  }
+	,  
+      // " ++ [27880; 37322]%N ++ runes_of_ascii "
+    match
+float as
+    trueish 	 // a // b
+	{ 007
+
+:  packetx
+
+,
+
+65535
+
+: repeatCount
+	} ,
+repeat 
+    // @lengthOf(
+  roots
+lengthOf ,repeat
+i8
+string_ , }  , i64
+
+    leftPad	@lengthOf(  msg_type
+)
+    , // a // b
+	@tag( 
+// c
+	7)zchar[
+    7
+] f32a	//	t
+    	@calculatedFrom(	""\n""
+)	,	string
+falsey,
+    // packet A { u8 x, }
+	repeat	leftPad{
+
+match
+matchKey	// a // b
+    as
+	repeatCount { ""\n""	:metadata ,  ""x y"" :
+	Logon 
+	// " ++ [128512]%N ++ runes_of_ascii " emoji
+	// " ++ [27880; 37322]%N ++ runes_of_ascii "
+	, 
+},
+	}
+,	/// triple
+	}")).
+Eval vm_compute in ("<<<M506>>>" ++ check (runes_of_ascii "root
+    packet
+    string_ {
+@lengthOf(
+    falsey )@tag( // @lengthOf(
+42 ) match repeatCount	as Z9_ {
+""{,}"" :
+    roots // 50% %s
+, 255
+: As ,[65535
+, 0
+    ]
+:
+    // a // b
+    T
+} ,
+    /// triple
+    repeat i8 repeatCount`" ++ [28040; 24687; 31867; 22411]%N ++ runes_of_ascii "` , }
+options{ As =
+zchar[
+    255	]
+;}
+    // trailing space 
+    packet // trailing space 
+leftPad { @lengthOf( lengthOf ) Foo  { x msg_type ,
+msg_type/// triple
+`it's`,u16  crc @lengthOf( f32a) `
+` ,
+} // trailing space 
+,
+    u stringy
+    ,packetx`u8 x,` , @leftPad
+() @calculatedFrom(""abc"" ) @tag(
+65535 ) BodyLength { zchar[1 ] Logon,} , match As as matchKey{42 : // `tick` ""quote"" 'q'
+Z9_
+    , //	t
+[ ""it's"" ]
+    // trailing space 
+    :
+    calculatedFrom 255: roots,""abc"": u8x
+, """" : i8i8 4294967296
+    : packetx
+,},} root packet  A{ char[10 ] x_y_z
+, }")).
+Eval vm_compute in ("<<<M619>>>" ++ check (runes_of_ascii "  packet float
+{
+    }packet	o { zchar[ 3 ]  x `doc` ,repeat
+    string_{ char[] stringy `" ++ [233]%N ++ runes_of_ascii "` , }
+    , repeat uint32 a1 ``
+, //
+int64// c
+Pad@calculatedFrom(""1"" ) ,
+    @lengthOf( crc ) repeat /// triple
+u16 packetx , msg_type
+    @lengthOf( crc) , @tag(
+3
+) i16 u128 ,	zchar[65535 ]Logon `crlf
+line`, @lengthOf(
+repeatCount )
+    @calculatedFrom( ""a\""b"" )
+    crc tag
+, }
+root packet i8i8{ repeat
+    Packet	{
+msg_type @calculatedFrom(
+    ""a\""b"" )  ,
+/// triple
+// 50% %s
+}
+,  }// c
+packet i8i8{ //	t
+i32 a1 // packet A { u8 x, }
+@calculatedFrom( ""\n""	)
+`// not a comment`
+, } root packet
+u128
+{@leftPad
+    (
+'\x00'
+)
+x_y_z
+@lengthOf(lengthOf )
+, repeat u32 calculatedFrom // packet A { u8 x, }
+,u8 _x@calculatedFrom( """ ++ [128512]%N ++ runes_of_ascii """ )  `u8 x,` , int8 Pad ,
+crc
+,
+    }
+")).
+Eval vm_compute in ("<<<M4224>>>" ++ check (runes_of_ascii "packet o {	repeat
+    calculatedFrom
+{
+As,  repeat	u {	//	t
+	  i32 
+repeatCount, }, match  BodyLength 
+as	u8x
+
+{
+
+    007:
+trueish }
+	,
+
+asx float
+    `two words` , } 
+,
+match	pack
+
+as // `tick` ""quote"" 'q'
+calculatedFrom{	""it's"": Foo , 
+    // 50% %s
+    // @lengthOf(
+    }
+    ,	match	body
+as
+    calculatedFrom
+{
+	[
+    // 50% %s
+      ""a\""b""]	:o
+
+    , 42	:
+	Packet
+	, 	 //
+    	[ 0123456789 
+,
+1 , ""1""
+	]
+	:float, }	,}
+MetaData
+
+i64_
+
+    {
+	u128 
+
+    //x
+    crc ``	,	// c
+	string_
+
+    u
+
+,
+	i8	int`doc` , 
+  // " ++ [27880; 37322]%N ++ runes_of_ascii "
+
+i16 x
+
+`doc`
+
+,falsey  
+      /// triple
+	//
+f32a
+,
+    }
+options
+
+    {roots //x
+    	=zchar[4294967296	] ; x
+=	65535 ;
+
+crc
+    =
+
+zchar[
+	    // " ++ [27880; 37322]%N ++ runes_of_ascii "
+	  7
+
+] ;metadata=char[] ;
+leftPad =
+    i32 }
+")).
+Eval vm_compute in ("<<<M3713>>>" ++ check (runes_of_ascii "
+
+  MetaData
+pack
+    { char[ 10
+]
+
+_x 
+,calculatedFrom
+
+    MetaDataX	`" ++ [233]%N ++ runes_of_ascii "`	,	/// triple
+  int32 pack ,i16
+
+    lengthOf`doc`
+
+, a1
+u// trailing space 
+
+`` ,
+    char[	255]
+    T ,
+	}
+
+    /// triple
+    MetaData
+
+stringy
+
+    { T
+
+    falsey
+`say ""hi""` ,char[
+
+    7	]
+leftPad 
+`" ++ [233]%N ++ runes_of_ascii "`
+
+    ,
+
+}
+root	packet
+    packetx
+	{  char[
+
+42	] 
+u
+,
+i32 tag @calculatedFrom(
+""abc""
+) 
+`" ++ [233]%N ++ runes_of_ascii "` , 	 // " ++ [27880; 37322]%N ++ runes_of_ascii "
+		u8
+calculatedFrom`say ""hi""`,
+repeat _x``  //x
+, 
+repeat leftPad falsey
+
+    ,
+i8i8
+	{ string T	`line1
+line2` ,
+	} ,}
+MetaData
+
+T
+
+    {_x 
+msg_type
+
+, char[007  ]
+
+    trueish
+    , char[] lengthOf 
+`two words`,  char[] // `tick` ""quote"" 'q'
+zchar 
+`line1
+line2`	,
+
+metadata
+uint8x 
+`" ++ [233]%N ++ runes_of_ascii "`
+
+,
+    // " ++ [27880; 37322]%N ++ runes_of_ascii "
+}
+
+")).
+Eval vm_compute in ("<<<M4353>>>" ++ check (runes_of_ascii "packet leftPad {
+    @leftPad('\x00')
+    int32 stringy `it's`,
+    body {
+        lengthOf x_y_z `line1
+        line2`,
+        falsey pack,
+        asx,
+        uint32 trueish @lengthOf(MetaDataX) `{ , }`,
+    },
+    @calculatedFrom(""" ++ [128512]%N ++ runes_of_ascii """)
+    falsey @lengthOf(f32a) `line1
+    line2`,
+    string u128 @calculatedFrom(""a\""b""),
+    i64 asx @lengthOf(u) `line1
+    line2`,
+    uint8x @calculatedFrom(""packet"") `a\`,
+    @calculatedFrom(""`tick`"")
+    As `it's`,
+    @lengthOf(Z9_)
+    i16 packetx,
+    @lengthOf(BodyLength)
+    stringy @lengthOf(Header) `" ++ [233]%N ++ runes_of_ascii "`,
 }
 
 options {
-    As = true;// " ++ [27880; 37322]%N ++ runes_of_ascii "
-    repeatCount = '\x00';
-    uint8x = ""\" ++ [233]%N ++ runes_of_ascii """;
-    chars = true;
-}
-
-// " ++ [27880; 37322]%N ++ runes_of_ascii "
-// `tick` ""quote"" 'q'
-packet crc {
-    matchKey @lengthOf(float),
-    @leftPad('0')
-    match i8i8 as x {
-        [65535, 10, 4294967296] : repeatCount,
-        ""// no comment"" : stringy,
-    },
-    @calculatedFrom(""a	b"")
-    crc,
-    /// triple
+    Foo = """ ++ [28040; 24687]%N ++ runes_of_ascii """;
+    BodyLength = ' '
+    lengthOf = ""a\""b"";
+    stringy = ""abc"";
+    int = false// trailing space 
 }")).
-Eval vm_compute in ("<<<M64>>>" ++ check (runes_of_ascii "
-MetaData x_y_z // c
-{char As ,} packet packetx { asx @calculatedFrom( """ ++ [128512]%N ++ runes_of_ascii """
-) `a\`, MetaDataX // packet A { u8 x, }
-, @leftPad
-(
-    '0'
-)
-asx@lengthOf( f32a) `a\` , @lengthOf(	metadata )
-match	Packet as lengthOf { [ // `tick` ""quote"" 'q'
-""packet"", """ ++ [128512]%N ++ runes_of_ascii """] : // trailing space 
-Foo , 0
-    :
-    crc [
-10
-, ""CRC32"" ]
-:
-trueish
+Eval vm_compute in ("<<<M1382>>>" ++ check (runes_of_ascii "packet matchKey{ @rightPad
+//x
+/// triple
+(	)	match Logon
+// @lengthOf(
+// packet A { u8 x, }
+as tag { 10 :// a // b
+body ,	4294967296 : tag
+    //	t
+    ,
+65535 :
+    // a // b
+    len ,
+""x y""	: Header //	t
+},	}
+    // packet A { u8 x, }
+    MetaData
+    uint8x{ asx _x `" ++ [233]%N ++ runes_of_ascii "` , msg_type Header `` , // a // b
+u128 x
+`// not a comment` , // " ++ [128512]%N ++ runes_of_ascii " emoji
+u16 msg_type
+,
+matchKey int , u16
+    x_y_z// @lengthOf(
+,
+} packet
+    string_ {@lengthOf(
+//x
+// @lengthOf(
+crc
+    )
+repeat
+    string body // `tick` ""quote"" 'q'
+`line1
+line2`, }
 //
 // " ++ [27880; 37322]%N ++ runes_of_ascii "
-,}	, } packet/// triple
-lengthOf { @lengthOf( msg_type )
-repeat zchar[7 ]  f32a `" ++ [233]%N ++ runes_of_ascii "`,
-int64 tag ,  }
+packet len { i64
+    // 50% %s
+    pack `say ""hi""`
+    , } packet asx {	@calculatedFrom( """ ++ [233]%N ++ runes_of_ascii "t" ++ [233]%N ++ runes_of_ascii """  )
+repeat T
+u8x ,}
 ")).
-Eval vm_compute in ("<<<M1833>>>" ++ check (runes_of_ascii "
+Eval vm_compute in ("<<<M3969>>>" ++ check (runes_of_ascii "
+packet T
+    { f32a{a1 ,}	// @lengthOf(
+    	,
 
-  root
-	packet
-
-    pack
-
-    { match Pad as 	 // a // b
-	f32a  {
-    [
-
-    /// triple
-  //	t
-    """"
-]
-:  leftPad ,[
-""" ++ [233]%N ++ runes_of_ascii "t" ++ [233]%N ++ runes_of_ascii """,
-
-007
-]: //	t
-
-f32a  //x
-  	,
-
-    65535
-
-    :
-    body
-
-, 
-	// @lengthOf(
-	10
-	:u128,
-42	:  // trailing space 
-    pack ,	},}options
-    {// " ++ [27880; 37322]%N ++ runes_of_ascii "
-o
-
-=  
-  // c
-
-f64 ;
-	x_y_z  //
-  =	/// triple
-  u32
-
-len =
-    42;
-
-    falsey	=
-true
-
-;} ")).
-Eval vm_compute in ("<<<M1463>>>" ++ check (runes_of_ascii "// top
-packet // c0
-B // c1a
-  // c1b
-{ // c2
-u8
-    // c3
-a , // c5a
-  // c5b
-string s // c7
-,
-    // c8
-} // c9a
-  // c9b
-root // c10
-packet
-    // c11
-P
-    // c12
-{ // c13a
-  // c13b
-u16 // c14a
-  // c14b
-L // c15
-@lengthOf(
-    // c16
-B ) // c18
-,
-    // c19
-B
-    // c20
-, // c21
-u8
-    // c22
-t // c23a
-  // c23b
-, } // c25a
-  // c25b
-")).
-Eval vm_compute in ("<<<M197>>>" ++ check (runes_of_ascii "packet	zchar { char[]  i64_,
-    // " ++ [128512]%N ++ runes_of_ascii " emoji
-    @calculatedFrom(	""// no comment"" ) match charz
-    as tag
-{ [""it's""
-, 4294967296
-    ,/// triple
-""a	b""
-    , """ ++ [28040; 24687]%N ++ runes_of_ascii """
-,""" ++ [128512]%N ++ runes_of_ascii """
-    ,  255 ,007 ] // packet A { u8 x, }
-: i64_
-, [	0123456789 ,3
-, 00 ]: // `tick` ""quote"" 'q'
-Packet , [ """ ++ [233]%N ++ runes_of_ascii "t" ++ [233]%N ++ runes_of_ascii """ ]
-:a1 ,	}
-,
-    }
-")).
-Eval vm_compute in ("<<<M509>>>" ++ check (runes_of_ascii "root packet tag { }  packet MetaDataX MetaDataX{char[007	]
-// c
-/// triple
-asx  @calculatedFrom( ""a\""b""
-) `say ""hi""`// " ++ [27880; 37322]%N ++ runes_of_ascii "
-,  @tag(4294967296 )
-    char[1//x
-] packetx @calculatedFrom(""a\""b""
-    ) ,
-// " ++ [128512]%N ++ runes_of_ascii " emoji
-// a // b
-@calculatedFrom(""" ++ [233]%N ++ runes_of_ascii "t" ++ [233]%N ++ runes_of_ascii """  ) repeat pack // " ++ [27880; 37322]%N ++ runes_of_ascii "
-,
-    } // c")).
-Eval vm_compute in ("<<<M657>>>" ++ check (runes_of_ascii "root packet tag { }  packet MetaDataX{char[007	]
-// c
-/// triple
-asx  @calculatedFrom( ""a\""b""
-) `say ""hi""`// " ++ [27880; 37322]%N ++ runes_of_ascii "
-,  @tag(4294967296 )
-    char[1//x
-] packetx @calculatedFrom(@tag""a\""b""
-    ) ,
-// " ++ [128512]%N ++ runes_of_ascii " emoji
-// a // b
-@calculatedFrom(""" ++ [233]%N ++ runes_of_ascii "t" ++ [233]%N ++ runes_of_ascii """  ) repeat pack // " ++ [27880; 37322]%N ++ runes_of_ascii "
-,
-    } // c")).
-Eval vm_compute in ("<<<M515>>>" ++ check (runes_of_ascii "root packet tag { }  packet MetaDataX char[{007	]
-// c
-/// triple
-asx  @calculatedFrom( ""a\""b""
-) `say ""hi""`// " ++ [27880; 37322]%N ++ runes_of_ascii "
-,  @tag(4294967296 )
-    char[1//x
-] packetx @calculatedFrom(""a\""b""
-    ) ,
-// " ++ [128512]%N ++ runes_of_ascii " emoji
-// a // b
-@calculatedFrom(""" ++ [233]%N ++ runes_of_ascii "t" ++ [233]%N ++ runes_of_ascii """  ) repeat pack // " ++ [27880; 37322]%N ++ runes_of_ascii "
-,
-    } // c")).
-Eval vm_compute in ("<<<M555>>>" ++ check (runes_of_ascii "root packet tag { }  packet MetaDataX{char[007	]
-// c
-/// triple
-asx  @calculatedFrom( ""a\""b""
-) ,// " ++ [27880; 37322]%N ++ runes_of_ascii "
-`say ""hi""`  @tag(4294967296 )
-    char[1//x
-] packetx @calculatedFrom(""a\""b""
-    ) ,
-// " ++ [128512]%N ++ runes_of_ascii " emoji
-// a // b
-@calculatedFrom(""" ++ [233]%N ++ runes_of_ascii "t" ++ [233]%N ++ runes_of_ascii """  ) repeat pack // " ++ [27880; 37322]%N ++ runes_of_ascii "
-,
-    } // c")).
-Eval vm_compute in ("<<<M643>>>" ++ check (runes_of_ascii "root packet tag { }  packet MetaDataX{char[007	]
-// c
-/// triple
-asx  @calculatedFrom( ""a\""b""
-) `say ""hi""`// " ++ [27880; 37322]%N ++ runes_of_ascii "
-,  @tag(4294967296 )
-    char[1//x
-] packetx @calculatedFrom(""a\""b""
-    ) ,
-// " ++ [128512]%N ++ runes_of_ascii " emoji
-// a // b
-@calculatedFrom(""" ++ [233]%N ++ runes_of_ascii "t" ++ [233]%N ++ runes_of_ascii """  ) repeat pack // " ++ [27880; 37322]%N ++ runes_of_ascii "
-
-    } // c")).
-Eval vm_compute in ("<<<M503>>>" ++ check (runes_of_ascii "root packet tag { }   MetaDataX{char[007	]
-// c
-/// triple
-asx  @calculatedFrom( ""a\""b""
-) `say ""hi""`// " ++ [27880; 37322]%N ++ runes_of_ascii "
-,  @tag(4294967296 )
-    char[1//x
-] packetx @calculatedFrom(""a\""b""
-    ) ,
-// " ++ [128512]%N ++ runes_of_ascii " emoji
-// a // b
-@calculatedFrom(""" ++ [233]%N ++ runes_of_ascii "t" ++ [233]%N ++ runes_of_ascii """  ) repeat pack // " ++ [27880; 37322]%N ++ runes_of_ascii "
-,
-    } // c")).
-Eval vm_compute in ("<<<M227>>>" ++ check (runes_of_ascii "
-root packet
-rootA { } root packet
-// a // b
-// trailing space 
-_x // " ++ [27880; 37322]%N ++ runes_of_ascii "
+    zchar[
+7
+] stringy  `100% of %d` 	 // @lengthOf(
+      ,// `tick` ""quote"" 'q'
+} options{
+}	packet 
+A 
 {
-    i64_, // a // b
-} MetaData options1{ // `tick` ""quote"" 'q'
-a1 float `crlf
-line`
-,
-    u8x
-falsey // " ++ [128512]%N ++ runes_of_ascii " emoji
-`" ++ [233]%N ++ runes_of_ascii "`,
-f32a MetaDataX,int64 u8x, } packet f32a {}
-")).
-Eval vm_compute in ("<<<M267>>>" ++ check (runes_of_ascii "root packet
-i8i8
-    { _x@lengthOf(chars
-),
-    char[	7]
-packetx
-    /// triple
-    `say ""hi""`
-,
-    // c
-    }root packet string_ {
-    //
-    repeat// `tick` ""quote"" 'q'
-options1// c
-`u8 x,`	,
-    }
-options {	}")).
-Eval vm_compute in ("<<<M1699>>>" ++ check (runes_of_ascii "// top
-packet FooBar {
-    // c2
-    u8 a,// c5a
-    // c5b
-}// c6a
 
-// c6b
-packet foo_bar {
-    // c9a
-    // c9b
-    u16 b,
+    @rightPad( ) @lengthOf( 
+lengthOf // `tick` ""quote"" 'q'
+  )
+@tag(  1  )
+
+T @calculatedFrom(  ""a\""b""
+)
+    `` 
+,Header, 
+@tag( 
+    // `tick` ""quote"" 'q'
+    // trailing space 
+  4294967296	)
+
+options1 {
+	char[]A  //
+`{ , }` 
+,	match Z9_ // packet A { u8 x, }
+
+	as rootA
+{ 
+[ 3  ,
+    """ ++ [233]%N ++ runes_of_ascii "t" ++ [233]%N ++ runes_of_ascii """
+]
+        // packet A { u8 x, }
+:
+
+    Logon ,  }
+,  options1 Header
+
+`" ++ [233]%N ++ runes_of_ascii "` ,
+
+repeat
+f64/// triple
+	  MetaDataX `it's`
+, 
 }
 
-// c13
-root packet R {
-    // c17
-    FooBar,// c19
-    foo_bar,
-}")).
-Eval vm_compute in ("<<<M1300>>>" ++ check (runes_of_ascii "// top
-MetaData // c0
-body // c1
-{ // c2
-i64 // c3
-pack // c4
-`it's` // c5
-, // c6
-} // c7
-packet // c8
-stringy // c9
-{ // c10
-int16 // c11
-calculatedFrom // c12
-, // c13
-} // c14
+,
+	// trailing space 
+	float64
+    BodyLength
+, }
 ")).
-Eval vm_compute in ("<<<M405>>>" ++ check (runes_of_ascii "packet
-    // `tick` ""quote"" 'q'
-    crc
-// packet A { u8 x, }
-//	t
-{
-u32 a1 a1 ,
-    // trailing space 
-    roots
-charz //
-`two words`,	}
-    MetaData int {
-} /// triple")).
-Eval vm_compute in ("<<<M681>>>" ++ check (runes_of_ascii "root pac%ket len // trailing space 
-{
-// " ++ [27880; 37322]%N ++ runes_of_ascii "
-//	t
-char[10
-] metadata	@lengthOf( o ) `crlf
-line`,
-    @rightPad
-( ' '
-) string
-    Header @calculatedFrom( ""a\\""
-    ), }
-")).
-Eval vm_compute in ("<<<M708>>>" ++ check (runes_of_ascii "root packet len // trailing space 
-char[
-// " ++ [27880; 37322]%N ++ runes_of_ascii "
-//	t
-{10
-] metadata	@lengthOf( o ) `crlf
-line`,
-    @rightPad
-( ' '
-) string
-    Header @calculatedFrom( ""a\\""
-    ), }
-")).
-Eval vm_compute in ("<<<M444>>>" ++ check (runes_of_ascii "packet
-    // `tick` ""quote"" 'q'
-    crc
-// packet A { u8 x, }
-//	t
-{
-u32 a1 ,
-    // trailing space 
-    roots
-charz //
-`two words`,	}
-    MetaData  {
-} /// triple")).
-Eval vm_compute in ("<<<M2081>>>" ++ check (runes_of_ascii "packet A {
-    match k as n {
-        [
-            1, ""bb"", 007, ""d"", 5,
-            ""f"", 7, ""h"", 9, ""j"",
-            11
-        ] : B,
-        2 : C,
-    },
-}")).
-Eval vm_compute in ("<<<M140>>>" ++ check (runes_of_ascii "packet Logon {
-    stringy
-crc	`crlf
-line`
-, T
-@calculatedFrom( ""a\""b""
-    ) // packet A { u8 x, }
-`u8 x,` // " ++ [27880; 37322]%N ++ runes_of_ascii "
-, }  options {	leftPad =  '\x00'}
-")).
-Eval vm_compute in ("<<<M1797>>>" ++ check (runes_of_ascii "packet A {
-    Inner {
-        u8 x `x
-                `,
-        Deep {
-            u8 y `x
-                        `,
+Eval vm_compute in ("<<<M3659>>>" ++ check (runes_of_ascii "packet len {
+    tag {
+        match _x as len {
+            255 : zchar,
         },
     },
+    @calculatedFrom(""// no comment"")
+    T @lengthOf(Z9_),
+    repeat a1 {
+        repeat string leftPad `" ++ [233]%N ++ runes_of_ascii "`,
+        //	t
+        //x
+        char[] matchKey @lengthOf(x_y_z) `line1
+        line2`,// " ++ [128512]%N ++ runes_of_ascii " emoji
+        repeat char[0123456789] matchKey,
+    },
+    i64 calculatedFrom @calculatedFrom(""\" ++ [233]%N ++ runes_of_ascii """),
+}
+
+packet BodyLength {
+    @calculatedFrom(""CRC32"")
+    @lengthOf(i8i8)
+    f32a @calculatedFrom(""abc""),
+    zchar[42] body @lengthOf(uint8x) `" ++ [28040; 24687; 31867; 22411]%N ++ runes_of_ascii "`,
+    float @lengthOf(trueish),
+    repeat zchar[255] u8x `it's`,//
 }")).
-Eval vm_compute in ("<<<M1491>>>" ++ check (runes_of_ascii "packet A {
-    u8 a,
+Eval vm_compute in ("<<<M1387>>>" ++ check (runes_of_ascii "packet chars	{	char
+options1 ,
 }
-packet B {
-    u16 b,
-}
-root packet P {
-    u8 K,
-    match K as M {
-        1 : A,
-        1 : B,
-    },
-}
-")).
-Eval vm_compute in ("<<<M1456>>>" ++ check (runes_of_ascii "packet B {
-    u8 a,
-}
-root packet P {
-    u8 K,
-    u64 L @lengthOf(Body),
-    match K as Body {
-        1 : B,
-    },
-}
-")).
-Eval vm_compute in ("<<<M1250>>>" ++ check (runes_of_ascii "root packet matchKey { zchar[ 3 ] pack @calculatedFrom( ""a	b"" ) `doc` , }
+    // @lengthOf(
+    packet
+    tag { match
+msg_type as leftPad { 42 :options1 ,
+    """"  : rootA 7 : asx ,[ 10  ,""a\\"" , ""a\""b"" , 007 ,00, ""a	b""	] : Logon
+,007: calculatedFrom ,
+    [
+255
+    ,
+    // `tick` ""quote"" 'q'
+    10
+// " ++ [27880; 37322]%N ++ runes_of_ascii "
+//x
+, //
+0
+    ,
+1 , """ ++ [233]%N ++ runes_of_ascii "t" ++ [233]%N ++ runes_of_ascii """ , """ ++ [233]%N ++ runes_of_ascii "t" ++ [233]%N ++ runes_of_ascii """ ]  : repeatCount }
+, string matchKey
+, @calculatedFrom(
+""""
+)
+repeat
+int64 repeatCount
+`line1
+line2` , } MetaData trueish{ char[]
+    Foo , float matchKey
+    ,// " ++ [128512]%N ++ runes_of_ascii " emoji
+float32 Header ,
+BodyLength matchKey ,
+// `tick` ""quote"" 'q'
+// trailing space 
+i64 T ,Pad
 // c
-options { } MetaData A { int8 msg_type , }")).
-Eval vm_compute in ("<<<M1749>>>" ++ check (runes_of_ascii "  packet  chars {	}
-packet
+//
+int `a\`, }
+")).
+Eval vm_compute in ("<<<M611>>>" ++ check (runes_of_ascii "MetaData asx { i8 float
+,float32 falsey ``
+, u8 x_y_z
+    // packet A { u8 x, }
+    `say ""hi""` , int16 //	t
+Header
+,repeatCount uint8x
+,  _x Packet	`u8 x,` ,
+} MetaData Packet// c
+{	zchar[ 0 ] uint8x
+    , char[ 7] zchar
+, } root packet len
+{ @leftPad (
+'\x00' )@rightPad( '0'
+)	@tag( 255
+) float repeatCount `100% of %d`, trueish { trueish { repeat
+    char[] Pad // " ++ [128512]%N ++ runes_of_ascii " emoji
+, match calculatedFrom as msg_type
+    {
+""\n"" : As, } , } , }, _x a1,@lengthOf(rootA )Logon
+{ repeat	string_{  stringy @lengthOf(
+    roots ) `100% of %d` , f32 Z9_
+,crc o , }
+    ,}
+,
+}
 
-    MetaDataX	{
-    @tag(  42  )	// c
+")).
+Eval vm_compute in ("<<<M246>>>" ++ check (runes_of_ascii "
+packet body { u32 BodyLength , i64 Pad	@calculatedFrom(//	t
+""// no comment"" ) , @tag( 00 )
+    @tag( 0123456789 ) @calculatedFrom(	""CRC32"" ) char i8i8 // trailing space 
+@calculatedFrom( ""// no comment"" )	,
+@tag( 3 ) @leftPad(
+    '\x00'
+)@rightPad
+( ) match
+string_ as MetaDataX//x
+{""packet"" :float , [
+    ""abc""
+, """", 3
+,
+// @lengthOf(
+/// triple
+65535
+    , ""a	b"" , 42 , 1 , ""packet"" ]:
+    i64_ // @lengthOf(
+, 7
+    // packet A { u8 x, }
+    :	lengthOf
+0
+    //x
+    : len
+    ,
+10// 50% %s
+: len , [0  ] :A, }
+, }
+// `tick` ""quote"" 'q'
+")).
+Eval vm_compute in ("<<<M550>>>" ++ check (runes_of_ascii "packet f32a { @calculatedFrom( ""1""
+)	zchar[
+10 ]// " ++ [128512]%N ++ runes_of_ascii " emoji
+roots
+    @lengthOf(	u8x ) `u8 x,`, @lengthOf( crc // " ++ [27880; 37322]%N ++ runes_of_ascii "
+)
+@leftPad(	) @lengthOf( metadata )  repeat
+string	i8i8 ,match chars
+as metadata
+{ 1
+: Pad }, @tag(
+00
+    // a // b
+    )  uint8// " ++ [128512]%N ++ runes_of_ascii " emoji
+stringy ,
+@tag(
+4294967296 // @lengthOf(
+) char[ 00 ]	rootA @lengthOf( f32a) , char[] x_y_z	, match
+    u8x
+as o
+    {""a\""b""
+    //x
+    :
+    Packet }
+    , }  MetaData
+crc{ char[] _x// packet A { u8 x, }
+, } // c
+root// trailing space 
+packet matchKey {}
+")).
+Eval vm_compute in ("<<<M3323>>>" ++ check (runes_of_ascii "// top
+options // c0
+{ // c1
+} // c2
+root // c3
+packet // c4
+u // c5
+{ // c6
+@rightPad // c7
+( // c8
+) // c9
+@tag( // c10
+42 // c11
+) // c12
+@calculatedFrom( // c13
+"""" // c14
+) // c15
+repeat // c16
+u8 // c17
+msg_type // c18
+, // c19
+@lengthOf( // c20
+stringy // c21
+) // c22
+@leftPad // c23
+( // c24
+'\x00' // c25
+) // c26
+@tag( // c27
+4294967296 // c28
+) // c29
+A // c30
+`crlf
+line` // c31
+, // c32
+zchar[ // c33
+1 // c34
+] // c35
+asx // c36
+`" ++ [233]%N ++ runes_of_ascii "` // c37
+, // c38
+charz // c39
+, // c40
+} // c41
+")).
+Eval vm_compute in ("<<<M857>>>" ++ check (runes_of_ascii "  packet float	{
+@leftPad ( /// triple
+) uint64  u //	t
+,
+    repeat char Z9_ ,
+    @lengthOf( asx) int8 _x @lengthOf(
+    uint8x
+)`" ++ [233]%N ++ runes_of_ascii "` , @rightPad
+    ( // packet A { u8 x, }
+'\x00' //	t
+) options1 As , }  packet x // " ++ [27880; 37322]%N ++ runes_of_ascii "
+{ @lengthOf(// " ++ [27880; 37322]%N ++ runes_of_ascii "
+int	)
+string_{ repeat Logon {	rootA
+,i8i8{ char[
+3 ]i64_
+,rootA falsey
+// trailing space 
+// c
+, } ,
+} ,  } ,i32 crc , int
+{ repeat f64 Packet
+, uint8x
+@calculatedFrom( ""1"") , string
+// `tick` ""quote"" 'q'
+//
+x
+`u8 x,` , } ,  }")).
+Eval vm_compute in ("<<<M3723>>>" ++ check (runes_of_ascii "MetaData string_ {
+    u128 chars `u8 x,`,
+    u8x leftPad,
+}
 
-	i16
+packet float {
+    //	t
+    trueish {
+        float {
+            u16 stringy,
+        },
+        crc @calculatedFrom(""// no comment""),// packet A { u8 x, }
+        zchar[00] x_y_z @lengthOf(trueish) `crlf
+        line`,
+    },
+    o {
+        u8x {
+            As @calculatedFrom(""a	b""),
+            zchar[3] MetaDataX,
+        },
+        char[255] _x,
+    },
+}
 
-string_  ,	repeat
-    x
-`say ""hi""` ,
-    } ")).
-Eval vm_compute in ("<<<M1862>>>" ++ check (runes_of_ascii "  MetaData
-float 	 // c
+packet repeatCount {
+}")).
+Eval vm_compute in ("<<<M1392>>>" ++ check (runes_of_ascii "packet tag
+    {uint64 _x, @lengthOf( rootA
+    ) int32
+    calculatedFrom  ,
+/// triple
+/// triple
+uint32 Packet `say ""hi""` , @tag(
+    255) len@lengthOf( Foo
+)
+, BodyLength,zchar[	42] packetx @lengthOf( a1)
+,  i16 packetx, @leftPad( ' '
+)// @lengthOf(
+matchKey
+{ zchar[ 007 ] pack, i32 chars  ,
+    //
+    Packet {repeat uint16
+    options1`100% of %d` , }
+// packet A { u8 x, }
+// c
+,
+    /// triple
+    repeat
+msg_type , }, }")).
+Eval vm_compute in ("<<<M289>>>" ++ check (runes_of_ascii "options {
+    repeatCount = false // trailing space 
+;Packet=""{,}""
+    //
+    ; float
+    //
+    = ""`tick`"" T=char[ 007 ]  ; calculatedFrom = uint8 }
+    packet x
+{int32 options1
+@calculatedFrom(""{,}"")
+// a // b
+// c
+`tab	here` ,	match lengthOf  as  u128 { /// triple
+10 :rootA ,
+    // c
+    [
+    7//	t
+, 0	] :Header
+    ,
+// @lengthOf(
+// a // b
+3 :  i8i8 , ""1"" :falsey""`tick`"": matchKey , ""a\\"": tag , }, }")).
+Eval vm_compute in ("<<<M4451>>>" ++ check (runes_of_ascii "root packet trueish {
+    string Packet `say ""hi""`,
+    Logon {
+        f64 repeatCount,
+    },
+}
 
-{  float64 charz`
-` , }root
+options {
+    // a // b
+    Header = true;
+    uint8x = '\x00';
+    Z9_ = int16
+}
 
-packet
+packet tag {
+    repeat tag {
+        int8 uint8x @calculatedFrom(""it's""),
+        repeat float32 crc,
+    },
+}
 
-    chars 
+options {
+    roots = 255;
+}
+
+root packet Foo {
+    @tag(7)
+    packetx @calculatedFrom(""`tick`""),
+}")).
+Eval vm_compute in ("<<<M1115>>>" ++ check (runes_of_ascii "root packet calculatedFrom
+    { T
+    { match stringy as //	t
+options1	{ 00
+: stringy
+,  [
+    // `tick` ""quote"" 'q'
+    1 ]: f32a }
+// " ++ [128512]%N ++ runes_of_ascii " emoji
+// trailing space 
+, string int @lengthOf( As ) , repeat lengthOf A ,
+    }  , i8 charz@calculatedFrom(	""packet"" ) ,
+uint8 metadata @calculatedFrom(
+""packet"")
+`u8 x,`//	t
+, match // " ++ [128512]%N ++ runes_of_ascii " emoji
+Packet  as u128 { ""a	b"" : x
+    , // c
+} , }
+")).
+Eval vm_compute in ("<<<M4392>>>" ++ check (runes_of_ascii "packet 
+pack{match  options1
+as trueish 
+{ 10
+	: packetx	,
+	[
+    ""a\\""
+        // @lengthOf(
+    //x
+    	,	// 50% %s
+  	00, 
+  // `tick` ""quote"" 'q'
+007
+    // `tick` ""quote"" 'q'
+	  ,
+00
+    ] : f32a// " ++ [128512]%N ++ runes_of_ascii " emoji
+  ,
+	[
+0123456789 
+,  ""it's""
+        // a // b
+	// trailing space 
+,""a\\""	]
+:
+
+    body ,},a1 	 // a // b
+`it's`
+, repeat
+    A
+, 
+}
+	//	t
+")).
+Eval vm_compute in ("<<<M3841>>>" ++ check (runes_of_ascii "root packet packetx {
+    @tag(1)
+    T uint8x,
+}
+
+packet crc {
+    @calculatedFrom(""abc"")
+    msg_type charz `line1
+        line2`,
+}
+
+packet Pad {
+}
+
+root packet x {
+    @tag(0)
+    zchar[10] metadata,
+    _x charz,
+    x `// not a comment`,
+    int16 roots,
+    string i64_ `line1
+        line2`,
+    repeat lengthOf ``,
+    zchar[42] int,
+}")).
+Eval vm_compute in ("<<<M3329>>>" ++ check (runes_of_ascii "// top
+packet // c0
+leftPad // c1
+{ // c2
+@calculatedFrom( // c3
+""packet"" // c4
+) // c5
+chars // c6
+Header // c7
+, // c8
+Z9_ // c9
+{ // c10
+int16 // c11
+roots // c12
+@lengthOf( // c13
+f32a // c14
+) // c15
+`line1
+line2` // c16
+, // c17
+rootA // c18
+, // c19
+} // c20
+, // c21
+repeat // c22
+int8 // c23
+int // c24
+, // c25
+} // c26
+")).
+Eval vm_compute in ("<<<M3463>>>" ++ check (runes_of_ascii "options {
+    LittleEndian = true;
+    FixedStringPadChar = '0';
+}
+packet Heartbeat {
+    zchar[5] sym,
+    repeat char[3] OrderId,
+}
+root packet Quote {
+    u64 lastPx,
+    repeat u8 venue,
+    Heartbeat,
+    InSym1 {
+        char[3] Acct,
+        char[] lastPx,
+        Heartbeat,
+        repeat string x,
+    },
+}
+")).
+Eval vm_compute in ("<<<M522>>>" ++ check (runes_of_ascii "packet
+chars
+    { repeat char[ 3 ] roots , @calculatedFrom(""a\\""
+) @leftPad
+(
+// " ++ [27880; 37322]%N ++ runes_of_ascii "
+// packet A { u8 x, }
+'\x00' ) @leftPad( '0' ) uint16 rootA
+// " ++ [128512]%N ++ runes_of_ascii " emoji
+/// triple
+`crlf
+line` ,
+@rightPad ( '\x00' )Z9_
+    Logon, }
+    packet msg_type { } options
+{ charz
+    = '\x00'  MetaDataX= 3 ; _x =false //
+}
+")).
+Eval vm_compute in ("<<<M3537>>>" ++ check (runes_of_ascii "MetaData options1 {
+    u16 stringy,
+}
+
+packet stringy {
+    // packet A { u8 x, }
+    zchar @calculatedFrom(""`tick`""),
+    @rightPad('\x00')
+    @leftPad('\x00')
+    @leftPad('\x00')
+    rootA @calculatedFrom(""" ++ [28040; 24687]%N ++ runes_of_ascii """),
+    @leftPad('\x00')
+    char[0] u @calculatedFrom(""`tick`""),// a // b
+}")).
+Eval vm_compute in ("<<<M4460>>>" ++ check (runes_of_ascii "MetaData uint8x {
+    i8 x_y_z,
+    char[255] repeatCount `{ , }`,
+}
+
+options {
+    u = false
+    options1 = 0123456789
+    BodyLength = 255;
+    lengthOf = ""`tick`"";
+    u = ' '
+}
+
+MetaData Header {
+    zchar[0123456789] Z9_,
+    int32 Header,
+    char[007] A `
+        `,
+}//	t")).
+Eval vm_compute in ("<<<M1552>>>" ++ check (runes_of_ascii "// 50% %s
+packet	a1
+    { zchar[
+// a // b
+// 50% %s
+007]
+T `it's` `it's`
+    ,@rightPad
+    // a // b
+    (
+'\x00')
+    o repeatCount , }  packet Logon {  }packet	Logon //x
+{ repeat // " ++ [128512]%N ++ runes_of_ascii " emoji
+uint16 u128
+    //
+    `a\`,
+falsey
+@calculatedFrom(""packet"" ) ,
+    } 	 ")).
+Eval vm_compute in ("<<<M110>>>" ++ check (runes_of_ascii "
+MetaData	Header {// `tick` ""quote"" 'q'
+i64_ i64_ /// triple
+, chars falsey , // trailing space 
+u32 MetaDataX//x
+, Header metadata ,
+zchar len, }options
 {
-@rightPad
+    u8x = '0' calculatedFrom =zchar[ 4294967296	]
+// trailing space 
+// packet A { u8 x, }
+} MetaData  Pad	{}")).
+Eval vm_compute in ("<<<M1707>>>" ++ check (runes_of_ascii "// 50% %s
+packet	a1
+    { zchar[
+// a // b
+// 50% %s
+007]
+T `it's`
+    ,@rightPad
+    // a // b
+    (
+'\x00')
+    o repeatCount , }  packet Logon {  }packet	Logon //x
+{ repea@xt // " ++ [128512]%N ++ runes_of_ascii " emoji
+uint16 u128
+    //
+    `a\`,
+falsey
+@calculatedFrom(""packet"" ) ,
+    } 	 ")).
+Eval vm_compute in ("<<<M1588>>>" ++ check (runes_of_ascii "// 50% %s
+packet	a1
+    { zchar[
+// a // b
+// 50% %s
+007]
+T `it's`
+    ,@rightPad
+    // a // b
+    (
+'\x00')
+    o , repeatCount }  packet Logon {  }packet	Logon //x
+{ repeat // " ++ [128512]%N ++ runes_of_ascii " emoji
+uint16 u128
+    //
+    `a\`,
+falsey
+@calculatedFrom(""packet"" ) ,
+    } 	 ")).
+Eval vm_compute in ("<<<M1591>>>" ++ check (runes_of_ascii "// 50% %s
+packet	a1
+    { zchar[
+// a // b
+// 50% %s
+007]
+T `it's`
+    ,@rightPad
+    // a // b
+    (
+'\x00')
+    o repeatCount  }  packet Logon {  }packet	Logon //x
+{ repeat // " ++ [128512]%N ++ runes_of_ascii " emoji
+uint16 u128
+    //
+    `a\`,
+falsey
+@calculatedFrom(""packet"" ) ,
+    } 	 ")).
+Eval vm_compute in ("<<<M3819>>>" ++ check (runes_of_ascii "root packet metadata {
+}// " ++ [128512]%N ++ runes_of_ascii " emoji
 
-    ( '0')
+packet tag {
+    @leftPad('0')
+    @lengthOf(asx)
+    @rightPad('\x00')
+    repeat u16 stringy `
+        `,
+}
 
+options {
+    Foo = ""// no comment""
+    leftPad = false;
+}
+
+packet chars {
+    string uint8x @lengthOf(float),
+}")).
+Eval vm_compute in ("<<<M1589>>>" ++ check (runes_of_ascii "// 50% %s
+packet	a1
+    { zchar[
+// a // b
+// 50% %s
+007]
+T `it's`
+    ,@rightPad
+    // a // b
+    (
+'\x00')
+    o ( , }  packet Logon {  }packet	Logon //x
+{ repeat // " ++ [128512]%N ++ runes_of_ascii " emoji
+uint16 u128
+    //
+    `a\`,
+falsey
+@calculatedFrom(""packet"" ) ,
+    } 	 ")).
+Eval vm_compute in ("<<<M833>>>" ++ check (runes_of_ascii "
+options {uint8x = false} root
+packet uint8x { Logon BodyLength , @leftPad (	)
+    float64 msg_type
+    , repeat string
+    Z9_ ,}
+packet
+len	{
+@tag( 1 ) @leftPad
+    //
+    ( '\x00'
+)  @tag( 255
+    ) rootA chars // `tick` ""quote"" 'q'
+`` , }
+")).
+Eval vm_compute in ("<<<M77>>>" ++ check (runes_of_ascii "packet
+Foo
+{repeat int16 u8x,
+//
+// packet A { u8 x, }
+}	options {
+// `tick` ""quote"" 'q'
+//
+x =// packet A { u8 x, }
+0123456789 ; BodyLength
+    = zchar[	00 ] f32a =false
+    ;
+    // 50% %s
+    stringy = int32}
+    packet
+zchar {}
+")).
+Eval vm_compute in ("<<<M4057>>>" ++ check (runes_of_ascii "root packet rootA {
+}
+
+packet u128 {
+    @calculatedFrom(""\" ++ [233]%N ++ runes_of_ascii """)
+    falsey @calculatedFrom(""a\\""),
+    @lengthOf(pack)
+    repeat float64 packetx,
+    @calculatedFrom(""packet"")
+    charz,
+    uint8 leftPad `crlf
+    line`,
+}")).
+Eval vm_compute in ("<<<M812>>>" ++ check (runes_of_ascii "
+packet
+    options1{ zchar[ 255] leftPad	,
+} packet
+    repeatCount { }MetaData	pack
+// " ++ [27880; 37322]%N ++ runes_of_ascii "
+//x
+{
+char[ 00]BodyLength , zchar[//	t
+0123456789
+    ] metadata, zchar[ 65535 ] rootA
+`a\`,
+uint32 msg_type
+, Foo f32a , }")).
+Eval vm_compute in ("<<<M932>>>" ++ check (runes_of_ascii "packet
+lengthOf {
+// @lengthOf(
+//x
+repeat //x
+chars ,
+    } MetaData
+tag
+//
+// @lengthOf(
+{ roots repeatCount `a\` ,
+char[ 1  ] u128 `{ , }` // @lengthOf(
+,// a // b
+packetx lengthOf
+, f64 Header ,
+    }
+")).
+Eval vm_compute in ("<<<M718>>>" ++ check (runes_of_ascii "MetaData float { u64 Logon ,
+    float32 Z9_ `` ,
+i16
+    Pad	`" ++ [28040; 24687; 31867; 22411]%N ++ runes_of_ascii "` ,
+Z9_ body // trailing space 
+, uint64 calculatedFrom
+,	}
+MetaData
+falsey
+    { char[]
+    trueish , }	root packet	rootA  {}
+")).
+Eval vm_compute in ("<<<M162>>>" ++ check (runes_of_ascii "options {
+} root packet // packet A { u8 x, }
+chars { @tag( 1 )zchar[3 ] falsey `" ++ [233]%N ++ runes_of_ascii "`
+, } options{ o  =' '
+tag
+= char[]
+    ;float = ' ' ; }// a // b
+MetaData	zchar { BodyLength _x , }")).
+Eval vm_compute in ("<<<M3623>>>" ++ check (runes_of_ascii "options {
+}
+
+/// triple
+//	t
+MetaData string_ {
+    i64_ a1,
+    u128 x,
+    A T `
+        `,
+    options1 calculatedFrom `" ++ [28040; 24687; 31867; 22411]%N ++ runes_of_ascii "`,
+    int8 roots `a\`,
+    zchar[7] MetaDataX,
+}")).
+Eval vm_compute in ("<<<M3910>>>" ++ check (runes_of_ascii "
+packet u128{ u8  a
+,
+    } root
+	packet Msg {
+    u8	k  , u24
+
+{
+u8 Hi 
+, u16  Lo
+
+,
+    }  ,
+repeat  i24
+
+    { u32 q ,
+},u128  ,
+u16	float32x ,
+string  s  , }
+")).
+Eval vm_compute in ("<<<M1384>>>" ++ check (runes_of_ascii "root
+    packet
+A // @lengthOf(
+{ @calculatedFrom(""CRC32""
+    // " ++ [27880; 37322]%N ++ runes_of_ascii "
+    )zchar[
+//x
+// " ++ [27880; 37322]%N ++ runes_of_ascii "
+3 // a // b
+] int,
+    @lengthOf( a1 )char[ 42 ] leftPad ,
+f64 float , }")).
+Eval vm_compute in ("<<<M1157>>>" ++ check (runes_of_ascii "root
+packet T { @leftPad // " ++ [128512]%N ++ runes_of_ascii " emoji
+( '0' ) repeat leftPad
+    {  char[
+3	]
+    roots,}
+, }
+    packet _x
+    {
+    int32  int
+@calculatedFrom(""\n""  ) , }
+")).
+Eval vm_compute in ("<<<M3848>>>" ++ check (runes_of_ascii "
+MetaData  crc{ 	 // a // b
+  string	repeatCount	, As
+repeatCount  `{ , }`	, uint32
+Packet
+
+    `` ,
+    uint16
+	chars
+
+`say ""hi""`
+	, 	 //
+  }// " ++ [27880; 37322]%N)).
+Eval vm_compute in ("<<<M2198>>>" ++ check (runes_of_ascii "MetaData BodyLength
+{ int8 Foo
+, string
+    MetaDataX , float zchar ,pack optio'1'ns1
+,asx string_, }
+packet u8x {Foo@lengthOf(charz )
+`" ++ [28040; 24687; 31867; 22411]%N ++ runes_of_ascii "`,  }
+")).
+Eval vm_compute in ("<<<M1942>>>" ++ check (runes_of_ascii "
+packet leftPad {
+@leftPad @leftPad( '0')
+u32
+i64_ `100% of %d` ,repeat// 50% %s
+i8 chars
+    ,
+} MetaData
+    f32a
+{ // packet A { u8 x, }
+}")).
+Eval vm_compute in ("<<<M2072>>>" ++ check (runes_of_ascii "MetaData BodyLength
+{ int8 Foo
+string ,
+    MetaDataX , float zchar ,pack options1
+,asx string_, }
+packet u8x {Foo@lengthOf(charz )
+`" ++ [28040; 24687; 31867; 22411]%N ++ runes_of_ascii "`,  }
+")).
+Eval vm_compute in ("<<<M1959>>>" ++ check (runes_of_ascii "
+packet leftPad {
+@leftPad( '0'MetaData
+u32
+i64_ `100% of %d` ,repeat// 50% %s
+i8 chars
+    ,
+} MetaData
+    f32a
+{ // packet A { u8 x, }
+}")).
+Eval vm_compute in ("<<<M2345>>>" ++ check (runes_of_ascii "options
+    {
+x_y_z// " ++ [27880; 37322]%N ++ runes_of_ascii "
+= 10 ; }
+packet body {
+    @calculatedFrom(
+// trailing space 
+// " ++ [27880; 37322]%N ++ runes_of_ascii "
+""1""
+)	'\x01'match T as Foo
+    {
+255 :T , }
+,}")).
+Eval vm_compute in ("<<<M2014>>>" ++ check (runes_of_ascii "
+packet leftPad {
+@leftPad( '0')
+u32
+i64_ `100% of %d` ,repeat// 50% %s
+i8 chars
+    ,
+} MetaData
+    MetaData
+{ // packet A { u8 x, }
+}")).
+Eval vm_compute in ("<<<M2241>>>" ++ check (runes_of_ascii "options
+    {
+x_y_z// " ++ [27880; 37322]%N ++ runes_of_ascii "
+= 10 ; true
+packet body {
+    @calculatedFrom(
+// trailing space 
+// " ++ [27880; 37322]%N ++ runes_of_ascii "
+""1""
+)	match T as Foo
+    {
+255 :T , }
+,}")).
+Eval vm_compute in ("<<<M2294>>>" ++ check (runes_of_ascii "options
+    {
+x_y_z// " ++ [27880; 37322]%N ++ runes_of_ascii "
+= 10 ; }
+packet body {
+    @calculatedFrom(
+// trailing space 
+// " ++ [27880; 37322]%N ++ runes_of_ascii "
+""1""
+)	match T as Foo
+    { {
+255 :T , }
+,}")).
+Eval vm_compute in ("<<<M2344>>>" ++ check (runes_of_ascii "options
+    {
+x_y_z// " ++ [27880; 37322]%N ++ runes_of_ascii "
+= 10 ; }
+packet body {
+    " ++ [65279]%N ++ runes_of_ascii "@calculatedFrom(
+// trailing space 
+// " ++ [27880; 37322]%N ++ runes_of_ascii "
+""1""
+)	match T as Foo
+    {
+255 :T , }
+,}")).
+Eval vm_compute in ("<<<M2046>>>" ++ check (runes_of_ascii " BodyLength
+{ int8 Foo
+, string
+    MetaDataX , float zchar ,pack options1
+,asx string_, }
+packet u8x {Foo@lengthOf(charz )
+`" ++ [28040; 24687; 31867; 22411]%N ++ runes_of_ascii "`,  }
+")).
+Eval vm_compute in ("<<<M4220>>>" ++ check (runes_of_ascii "packet A {
+    B b `a
+            b
+          c`,
+    B `a
+            b
+          c`,
+    repeat B bs `a
+            b
+          c`,
+}")).
+Eval vm_compute in ("<<<M2351>>>" ++ check (runes_of_ascii "options
+    {
+x_y_z// " ++ [27880; 37322]%N ++ runes_of_ascii "
+= 10 ; }
+packet body {
+    @calculatedFrom(
+// trailing space 
+// " ++ [27880; 37322]%N ++ runes_of_ascii "
+""1""
+)	match T as x" ++ [178]%N ++ runes_of_ascii "
+    {
+255 :T , }
+,}")).
+Eval vm_compute in ("<<<M2221>>>" ++ check (runes_of_ascii "options
+    {
+)// " ++ [27880; 37322]%N ++ runes_of_ascii "
+= 10 ; }
+packet body {
+    @calculatedFrom(
+// trailing space 
+// " ++ [27880; 37322]%N ++ runes_of_ascii "
+""1""
+)	match T as Foo
+    {
+255 :T , }
+,}")).
+Eval vm_compute in ("<<<M2243>>>" ++ check (runes_of_ascii "options
+    {
+x_y_z// " ++ [27880; 37322]%N ++ runes_of_ascii "
+= 10 ; }
+ body {
+    @calculatedFrom(
+// trailing space 
+// " ++ [27880; 37322]%N ++ runes_of_ascii "
+""1""
+)	match T as Foo
+    {
+255 :T , }
+,}")).
+Eval vm_compute in ("<<<M3657>>>" ++ check (runes_of_ascii "
+
+  MetaData 
 Foo
 
-, } ")).
-Eval vm_compute in ("<<<M1965>>>" ++ check (runes_of_ascii "packet crc {
-    u32 a1,
-    // trailing space 
-    float32 charz `two words`,
-}
+    { zchar[ 0
+]
+matchKey,  }options
 
-MetaData int {
-}/// triple")).
-Eval vm_compute in ("<<<M1471>>>" ++ check (runes_of_ascii "options {
+    { 
+lengthOf
+	=
+i32	u
+
+    =
+	    // c
+  00
+
+    ;	}
+
+")).
+Eval vm_compute in ("<<<M3754>>>" ++ check (runes_of_ascii "  packet
+A{
+
+    u16
+
+len @lengthOf(	body
+    ) `%`  , u32 crc
+
+@calculatedFrom(  ""CRC32""  ) `%` ,
+	string
+body
+    ,
+} ")).
+Eval vm_compute in ("<<<M4417>>>" ++ check (runes_of_ascii "
+packet
+
+_x{	} 
+packet
+    msg_type
+{ @lengthOf(f32a
+) u8x
+Z9_,} MetaData  /// triple
+chars
+
+{
+string 
+T
+
+, }	//x
+ 
+")).
+Eval vm_compute in ("<<<M1860>>>" ++ check (runes_of_ascii "packet o {
+    roots `it's`
+// trailing space 
+//x
+, options 42
+    ]  A, // " ++ [27880; 37322]%N ++ runes_of_ascii "
+f64
+repeatCount
+    `crlf
+line`
+,}")).
+Eval vm_compute in ("<<<M3089>>>" ++ check (runes_of_ascii "packet A {
+    match k as n {
+        ""%d%s"" : B,
+        [""%d%s"", 1] : C,
+        [1,2,3,4,5,""%d%s""] : D,
+    },
+}")).
+Eval vm_compute in ("<<<M1357>>>" ++ check (runes_of_ascii "packet o
+    {@calculatedFrom( ""packet"" ) match As as float {  255 :
+metadata , [
+0123456789] :
+    i8i8 , } , }
+")).
+Eval vm_compute in ("<<<M4384>>>" ++ check (runes_of_ascii "
+packet 
+A
+	{ 
+match
+	k 
+as
+    n {	[	1
+	, 22
+
+    ,
+""c c""
+    , 4
+,
+
+    5 ]  : B
+
+    2
+    :
+C 
+} ,
+} ")).
+Eval vm_compute in ("<<<M2154>>>" ++ check (runes_of_ascii "MetaData BodyLength
+{ int8 Foo
+, string
+    MetaDataX , float zchar ,pack options1
+,asx string_, }
+packet u8x")).
+Eval vm_compute in ("<<<M3391>>>" ++ check (runes_of_ascii "options {
     LittleEndian = true;
 }
 root packet P {
     u16 a,
-    u32 Sum @calculatedFrom(""CRC32""),
+    u32 Sum @calculatedFrom(""CR\
+C32""),
 }
 ")).
-Eval vm_compute in ("<<<M37>>>" ++ check (runes_of_ascii "MetaData
-chars { f32 metadata , i64
-    metadata
-// trailing space 
-//x
-`
-` // `tick` ""quote"" 'q'
-,}")).
-Eval vm_compute in ("<<<M557>>>" ++ check (runes_of_ascii "root packet tag { }  packet MetaDataX{char[007	]
-// c
-/// triple
-asx  @calculatedFrom( ""a\""b""
-)")).
-Eval vm_compute in ("<<<M1615>>>" ++ check (runes_of_ascii "MetaData body {
-    // c
-    i64 pack `it's`,
-}
-
-packet stringy {
-    int16 calculatedFrom,
-}")).
-Eval vm_compute in ("<<<M869>>>" ++ check (runes_of_ascii "packet A {
-  match k as n {
-    [1, 22, ""c c"", 4, 5, ""f"", 7, 8, ""i""] : B
-    2 : C
-  },
-}")).
-Eval vm_compute in ("<<<M1209>>>" ++ check (runes_of_ascii "MetaData float { float64 charz `
-` , } root packet chars { @rightPad ( '0'
-// c
-) Foo , }")).
-Eval vm_compute in ("<<<M1420>>>" ++ check (runes_of_ascii "packet chars { } packet MetaDataX { @tag( 42 ) i16 string_ , // c
-repeat x `say ""hi""` , }")).
-Eval vm_compute in ("<<<M2077>>>" ++ check (runes_of_ascii "packet A {
-    match k as n {
-        [1, 22, ""c c"", 4, 5] : B,
-        2 : C,
+Eval vm_compute in ("<<<M3021>>>" ++ check (runes_of_ascii "packet A {
+    Inner {
+        u8 x `a
+b`,
+        Deep {
+            u8 y `a
+b`,
+        },
     },
 }")).
-Eval vm_compute in ("<<<M1150>>>" ++ check (runes_of_ascii "packet metadata { Logon { A `" ++ [28040; 24687; 31867; 22411]%N ++ runes_of_ascii "` , tag o , } , zchar // c
-len `// not a comment` , }")).
-Eval vm_compute in ("<<<M1355>>>" ++ check (runes_of_ascii "packet o { repeat Logon uint8x , }
-// c
-options { asx = zchar[ 3 ] stringy = '\x00' }")).
-Eval vm_compute in ("<<<M1650>>>" ++ check (runes_of_ascii "
-// c
-	  packet
-
-x
-
-    {
-@rightPad
-	(
-    )
-repeat	roots
-Logon
-	`doc` ,
-    }
-
-")).
-Eval vm_compute in ("<<<M1316>>>" ++ check (runes_of_ascii "MetaData body { i64 pack `it's`
-// c
-, } packet stringy { int16 calculatedFrom , }")).
-Eval vm_compute in ("<<<M2103>>>" ++ check (runes_of_ascii "  packet A {
-
-    B 
-b
-
-`a
-
-b`	,
-    B`a
-
-b`
-	,
-
-    repeat
-B  bs `a
-
-b` ,}
-")).
-Eval vm_compute in ("<<<M1690>>>" ++ check (runes_of_ascii "
-
-  packet x
-// c
-	{ @rightPad(	)
-
-    repeat roots
-
-Logon `doc`
-
-,
-	}
-
-")).
-Eval vm_compute in ("<<<M1710>>>" ++ check (runes_of_ascii "// top
-root packet u128 {
-    // c3
-    chars `it's`,
-    // c6
+Eval vm_compute in ("<<<M4116>>>" ++ check (runes_of_ascii "packet a1 {
+    @tag(1)
+    rootA @calculatedFrom(""a	b""),// " ++ [128512]%N ++ runes_of_ascii " emoji
 }
-// c7")).
-Eval vm_compute in ("<<<M698>>>" ++ check (runes_of_ascii "root packet len // trailing space 
-{
-// " ++ [27880; 37322]%N ++ runes_of_ascii "
-//	t
-char[10
-] metadata")).
-Eval vm_compute in ("<<<M780>>>" ++ check (runes_of_ascii "packet A {
+
+options {
+    lengthOf = i8
+}")).
+Eval vm_compute in ("<<<M3027>>>" ++ check (runes_of_ascii "packet A {
+    Inner {
+        u8 x `
+`,
+        Deep {
+            u8 y `
+`,
+        },
+    },
+}")).
+Eval vm_compute in ("<<<M3800>>>" ++ check (runes_of_ascii "packet A {
+    Inner {
+        match k as n {
+            [1, 22, 007] : B,
+        },
+    },
+}")).
+Eval vm_compute in ("<<<M2986>>>" ++ check (runes_of_ascii "packet A {
   match k as n {
-    [""a"", 22] : B
+    [1, 22, 007, 4, 5, 66, 7, 8, 9, 10, 11] : B,
     2 : C
   },
 }")).
-Eval vm_compute in ("<<<M1276>>>" ++ check (runes_of_ascii "packet // c
-x { @rightPad ( ) repeat roots Logon `doc` , }")).
-Eval vm_compute in ("<<<M195>>>" ++ check (runes_of_ascii "packet i8i8// a // b
-{ a1`{ , }` ,
-// a // b
-// " ++ [27880; 37322]%N ++ runes_of_ascii "
-} //x")).
-Eval vm_compute in ("<<<M537>>>" ++ check (runes_of_ascii "root packet tag { }  packet MetaDataX{char[007	]")).
-Eval vm_compute in ("<<<M1932>>>" ++ check (runes_of_ascii "packet A {
-    u8 x `a
-        b
-      c`,
+Eval vm_compute in ("<<<M2987>>>" ++ check (runes_of_ascii "packet A {
+  match k as n {
+    [1, 22, 007, 4, 5, 66, 7, 8, 9, 10, 11] : B
+    2 : C
+  },
 }")).
-Eval vm_compute in ("<<<M1104>>>" ++ check (runes_of_ascii "root packet u128 // c
-{ chars `it's` , }")).
-Eval vm_compute in ("<<<M137>>>" ++ check (runes_of_ascii "//x
-MetaData falsey{ string Pad , }
+Eval vm_compute in ("<<<M1419>>>" ++ check (runes_of_ascii "packet
+{
+T match repeatCount as	calculatedFrom
+{ [65535 ]	: As	,
+} ,}
+// trailing space 
 ")).
-Eval vm_compute in ("<<<M1479>>>" ++ check (runes_of_ascii "root packet P {
-    string s,
+Eval vm_compute in ("<<<M1169>>>" ++ check (runes_of_ascii "MetaData
+// " ++ [128512]%N ++ runes_of_ascii " emoji
+/// triple
+roots { // packet A { u8 x, }
+}  MetaData  stringy
+{ }
+")).
+Eval vm_compute in ("<<<M2974>>>" ++ check (runes_of_ascii "packet A {
+  match k as n {
+    [1, 22, 007, 4, 5, 66, 7, 8, 9, 10] : B
+    2 : C
+  },
+}")).
+Eval vm_compute in ("<<<M1756>>>" ++ check (runes_of_ascii "options{  lengthOf =//x
+i16;
+    BodyLength = 0 ; ; pack
+= false;
+    A = char[ 3 ] }")).
+Eval vm_compute in ("<<<M1823>>>" ++ check (runes_of_ascii "options{  lengthOf =//x
+i16;
+    BodyLength = 0 ; pack
+= false" ++ [233]%N ++ runes_of_ascii ";
+    A = char[ 3 ] }")).
+Eval vm_compute in ("<<<M1803>>>" ++ check (runes_of_ascii "options{  lengthOf =//x
+i16;
+    BodyLength = 0 ; pack
+= false;
+    A = char[ 3 : }")).
+Eval vm_compute in ("<<<M4126>>>" ++ check (runes_of_ascii "MetaData Foo {
+    zchar[0] matchKey,
 }
-")).
-Eval vm_compute in ("<<<M1071>>>" ++ check (runes_of_ascii "MetaData M {
-}// c
-packet A {}")).
-Eval vm_compute in ("<<<M1917>>>" ++ check (runes_of_ascii "
-packet
 
-    A{
-	}
-// c" ++ [5760]%N)).
-Eval vm_compute in ("<<<M1743>>>" ++ check (runes_of_ascii "
-packet
-A	{ 
-}// c" ++ [12]%N ++ runes_of_ascii "
-")).
-Eval vm_compute in ("<<<M986>>>" ++ check (runes_of_ascii "packet A {
+options {
+    lengthOf = i32
+    u = 00;
+}")).
+Eval vm_compute in ("<<<M1055>>>" ++ check (runes_of_ascii "
+MetaData u  { char[255
+    ] string_	, } packet
+A {}
+root packet asx
+{ //	t
 }
-// c" ++ [133]%N)).
-Eval vm_compute in ("<<<M502>>>" ++ check (runes_of_ascii "root packet tag {")).
-Eval vm_compute in ("<<<M762>>>" ++ check (runes_of_ascii "false , uint16")).
-Eval vm_compute in ("<<<M748>>>" ++ check (runes_of_ascii "6y" ++ [65533; 142; 0]%N)).
-Eval vm_compute in ("<<<M721>>>" ++ check (runes_of_ascii " ")).
+")).
+Eval vm_compute in ("<<<M3245>>>" ++ check (runes_of_ascii "MetaData // c
+Foo { zchar[ 0 ] matchKey , } options { lengthOf = i32 u = 00 ; }")).
+Eval vm_compute in ("<<<M3277>>>" ++ check (runes_of_ascii "MetaData Foo { zchar[ 0 ] matchKey , } options { lengthOf = i32 u = 00 // c
+; }")).
+Eval vm_compute in ("<<<M1826>>>" ++ check (runes_of_ascii "options{  lengthOf =//x
+i16;
+    x" ++ [178]%N ++ runes_of_ascii " = 0 ; pack
+= false;
+    A = char[ 3 ] }")).
+Eval vm_compute in ("<<<M494>>>" ++ check (runes_of_ascii "packet
+x { @calculatedFrom(  ""a	b"" )crc // 50% %s
+crc`crlf
+line`  , }
+
+")).
+Eval vm_compute in ("<<<M1039>>>" ++ check (runes_of_ascii "options{crc =//x
+00 ; Packet= uint32 ; MetaDataX = '\x00' ; } // a // b")).
+Eval vm_compute in ("<<<M2889>>>" ++ check (runes_of_ascii "packet A {
+  match k as n {
+    [""a"", 22, ""c c""] : B
+    2 : C
+  },
+}")).
+Eval vm_compute in ("<<<M3335>>>" ++ check (runes_of_ascii "// top
+options // c0
+{ // c1
+u8x // c2
+= // c3
+false // c4
+} // c5
+")).
+Eval vm_compute in ("<<<M3983>>>" ++ check (runes_of_ascii "  options
+    { 
+charz=
+
+    false
+; uint8x
+=  '0'; 
+} // " ++ [27880; 37322]%N ++ runes_of_ascii "
+")).
+Eval vm_compute in ("<<<M3290>>>" ++ check (runes_of_ascii "
+// c
+packet u8x { } MetaData crc { char[ 4294967296 ] Foo , }")).
+Eval vm_compute in ("<<<M3301>>>" ++ check (runes_of_ascii "packet u8x { } MetaData crc // c
+{ char[ 4294967296 ] Foo , }")).
+Eval vm_compute in ("<<<M443>>>" ++ check (runes_of_ascii "packet// trailing space 
+options1
+{ } // `tick` ""quote"" 'q'")).
+Eval vm_compute in ("<<<M3721>>>" ++ check (runes_of_ascii "packet u8x {
+}
+
+MetaData crc {
+    char[4294967296] Foo,
+}")).
+Eval vm_compute in ("<<<M3585>>>" ++ check (runes_of_ascii "MetaData M {
+    u8 x `a
+    b`,
+    T t `a
+    b`,
+}")).
+Eval vm_compute in ("<<<M3194>>>" ++ check (runes_of_ascii "// a
+MetaData M {} // b
+// c
+MetaData N {} // d
+// e")).
+Eval vm_compute in ("<<<M3076>>>" ++ check (runes_of_ascii "MetaData M {
+    u8 x `%%d%!`,
+    T t `%%d%!`,
+}")).
+Eval vm_compute in ("<<<M2760>>>" ++ check (runes_of_ascii ") `two words` ""x y"" char[ i8 uint64 u16 ) char")).
+Eval vm_compute in ("<<<M2705>>>" ++ check (runes_of_ascii "packet char[] i32 0123456789 , false f32 u32")).
+Eval vm_compute in ("<<<M2787>>>" ++ check (runes_of_ascii "root f64 char[] false true true root ( u64")).
+Eval vm_compute in ("<<<M2595>>>" ++ check (runes_of_ascii "packet A { x @calculatedFrom(""c"") `d`, }")).
+Eval vm_compute in ("<<<M3231>>>" ++ check (runes_of_ascii "root packet u128 { chars `doc` // c
+, }")).
+Eval vm_compute in ("<<<M2376>>>" ++ check (runes_of_ascii "MetaData
+Foo {Header //
+pack , ,	} 	 ")).
+Eval vm_compute in ("<<<M2408>>>" ++ check (runes_of_ascii "MetaData
+    calculatedFrom
+{ zchar[")).
+Eval vm_compute in ("<<<M2740>>>" ++ check (runes_of_ascii "[ char[] int16 @lengthOf( [ uint8 ;")).
+Eval vm_compute in ("<<<M103>>>" ++ check (runes_of_ascii "options // packet A { u8 x, }
+{
+}")).
+Eval vm_compute in ("<<<M2833>>>" ++ check (runes_of_ascii "9a*YBA$bs(xyqL$&bnd[U5G{p]{s VS<")).
+Eval vm_compute in ("<<<M3982>>>" ++ check (runes_of_ascii "options {
+    u8x = false
+}// c")).
+Eval vm_compute in ("<<<M688>>>" ++ check (runes_of_ascii "options {x // c
+= ""1"" }
+// c
+")).
+Eval vm_compute in ("<<<M3338>>>" ++ check (runes_of_ascii "// c
+options { u8x = false }")).
+Eval vm_compute in ("<<<M3181>>>" ++ check (runes_of_ascii "packet A {
+}// a// b// c
+")).
+Eval vm_compute in ("<<<M2385>>>" ++ check (runes_of_ascii "MetaData
+Foo {Header //
+p")).
+Eval vm_compute in ("<<<M441>>>" ++ check (runes_of_ascii "// packet A { u8 x, }
+
+")).
+Eval vm_compute in ("<<<M94>>>" ++ check (runes_of_ascii "MetaData	metadata	{}
+")).
+Eval vm_compute in ("<<<M1851>>>" ++ check (runes_of_ascii "packet o {
+    roots")).
+Eval vm_compute in ("<<<M2847>>>" ++ check (runes_of_ascii "8""" ++ [65533; 65533; 65533; 24; 65533; 26]%N ++ runes_of_ascii "fLV" ++ [65533; 65533]%N ++ runes_of_ascii "J" ++ [19; 914; 65533; 27; 918]%N)).
+Eval vm_compute in ("<<<M3118>>>" ++ check (runes_of_ascii "// c" ++ [8192]%N ++ runes_of_ascii "
+packet A {
+}")).
+Eval vm_compute in ("<<<M1262>>>" ++ check (runes_of_ascii "packet tag {	} 	 ")).
+Eval vm_compute in ("<<<M3989>>>" ++ check (runes_of_ascii "root packet A {
+}")).
+Eval vm_compute in ("<<<M3187>>>" ++ check (runes_of_ascii "packet A {
+}
+
+
+")).
+Eval vm_compute in ("<<<M620>>>" ++ check (runes_of_ascii "options {  }")).
+Eval vm_compute in ("<<<M2636>>>" ++ check (runes_of_ascii "packet { }")).
+Eval vm_compute in ("<<<M2491>>>" ++ check (runes_of_ascii "@leftpad")).
+Eval vm_compute in ("<<<M2465>>>" ++ check (runes_of_ascii "string")).
+Eval vm_compute in ("<<<M2519>>>" ++ check (runes_of_ascii """a
+b""")).
+Eval vm_compute in ("<<<M2467>>>" ++ check (runes_of_ascii "root")).
+Eval vm_compute in ("<<<M2482>>>" ++ check (runes_of_ascii "'1'")).
+Eval vm_compute in ("<<<M2485>>>" ++ check (runes_of_ascii "'0")).
+Eval vm_compute in ("<<<M2689>>>" ++ check (runes_of_ascii " ")).
